@@ -5,9 +5,10 @@ from the CURRENT Rust source.  Companion of tools/rust2lean.py (whose lexer / so
     python3 tools/rust2lean_sm.py [--require GROUP[,GROUP...]] [--stdout] [--list]
 
 Reads the items listed in MACHINES *by name* from the files under $VERIF_REPO (default /repo) and writes
-<verif>/lean/BarterModel/Generated/Machines.lean (groups GROUPS) and Machines2.lean (groups GROUPS2; it imports the
-first and continues its namespace BarterModel.Generated.Machines; core Lean only; each file is rewritten only when
-its content changes).  The agreement theorems of lean/BarterModel/Lemmas/KernelsAgree/{Sequencer,Drawdown,
+<verif>/lean/BarterModel/Generated/Machines.lean (groups GROUPS), Machines2.lean (groups GROUPS2; it imports the
+first and continues its namespace BarterModel.Generated.Machines) and Machines3.lean (groups GROUPS3: state machines
+over MAP containers, see "Map vocabulary" below; it imports the second); core Lean only; each file is rewritten only
+when its content changes.  The agreement theorems of lean/BarterModel/Lemmas/KernelsAgree/{Sequencer,Drawdown,
 PositionSM,Connectivity}.lean (first file) and {DataSetSM,..}.lean (second file) state that the generated step
 functions equal the hand-written model definitions for ALL states and arguments, so a change of such a method in
 the Rust source breaks a proof obligation.  An item may belong to several groups (`a+b`); it is written to the
@@ -100,6 +101,49 @@ Accepted Rust subset (delta to tools/rust2lean.py, which covers straight-line De
           `E::V(x) =>`, `_ =>`) becomes a Lean `match` with the alternatives in source order;
           `unreachable!(..)` / `panic!(..)` become the opaque `Rust.unreachable` (an agreement theorem
           then only holds if the site is dead code).
+Map vocabulary (third file; the fixed MEANING of every operation is PRELUDE3, proved to be a finite map in
+Lemmas/KernelsAgree/MapVocab.lean; everything about maps that is not listed here is rejected by name)
+  types   `HashMap<K, V>` / `FnvHashMap<K, V>` -> `Rust.Map K V` (association list read through `get`), `IndexMap<K, V>` /
+          `FnvIndexMap<K, V>` -> `Rust.IndexMap K V` (pairs addressed by position and by key), `impl Iterator<Item = &T>`
+          as a return type -> `Rust.Bag T` (what `values()` yields: no meaningful order)
+  pure    `m.get(k)` `m.contains_key(k)` `m.len()` `m.is_empty()` `m.get_index(i)` (IndexMap), `m.values().all(p)` /
+          `.any(p)` with `p` a closure `|x| c` or a method path `Type::method` (`values()` alone only to be consumed
+          by `all` / `any` or returned), `HashMap::default()` / `new()`, `m.entry(k)` with the patterns
+          `Entry::Occupied(e)` / `Entry::Vacant(e)` (the entry's TYPE records the map place it borrows, so the handle
+          may travel through tuples, `let` and `match`), `e.get()` `e.get_mut()` (read) `e.key()`
+  writes  (a whole statement / initialiser / `if let` / `match` scrutinee, on a map that is a field path of `&mut self`
+          or of a mutable local) `m.insert(k, v)` (returns the old value) `m.remove(k)`, `e.remove()` `e.insert(v)` on
+          an occupied entry, `e.insert(v)` on a vacant entry (its `&mut V` must be discarded),
+          `e.get_mut().f = x;` on an occupied entry, `for x in m.values_mut() { x.f = e; .. }` (body: assignments to
+          fields of `x` from values that do not mention the variable the map lives in)
+  `&mut`-RETURNING ACCESSORS -- `m.get_mut(k)`, `m.get_index_mut(i).map(|(_k, v)| v)`, these followed by
+          `.expect("..")` / `.unwrap()` / `.unwrap_or_else(|| panic!(..))`, and a USER fn `acc(&mut self, ..) -> &mut T`
+          / `-> Option<&mut T>` of a translated non-generic struct whose body is ONE such expression over a field
+          path of `self` (it is found by lookup and read in place at its calls, the arguments substituted; its
+          source hash is in the header) -- are accepted ONLY where the returned reference is bound or written
+          through at once:
+            (a) `let Some(x) = <acc> else { ..diverges.. };`   (b) `if let Some(x) = <acc> { .. } else { .. }`
+            (c) `let x = <acc unwrapped>;`                      (d) `<acc unwrapped>.f.g = e;` (= (c) + `x.f.g = e;`)
+          `x` is then a mutable local holding the current value, and EVERY assignment to (a field of) `x`, every
+          `&mut self` method call / `take()` / `push(..)` on it and every call that passes it as a `&mut` argument is
+          followed at once by the write-back into the map (`Rust.Map.insert m k x` / `Rust.IndexMap.set m k x` /
+          `set_index m i x`).  For code the borrow checker accepts this is the meaning of the borrow: while `x` is
+          alive nothing else can read or write the map, afterwards `x` is never read again.  A second `&mut` borrow of
+          the same place while the first is in scope is rejected; the panic of an unwrapped accessor on a missing key
+          is `Rust.unreachable` for the WHOLE function (its result type must be inhabited).  Any other use of such an
+          accessor (as a call argument, stored in a struct, returned, `.map(..)`ped further, ...) is rejected.
+  also    (needed by the functions over maps, documented in PRELUDE3) generic enums, type aliases (kind `alias`),
+          `self` methods on enums, `let <refutable pattern> = e else {..}` / `if let <pattern>` on any enum / `Result` /
+          entry, `let p = match .. { arms that return early / change state };`, `match` with guards over patterns that
+          take values apart, nested or-patterns, `x => ..` as the catch-all arm, `Ok(p)` / `Err(p)` patterns,
+          `o.filter(|x| c)` `o.unwrap_or_else(|| e)` `o.cloned()` `o.ok_or(e)` `o.ok_or_else(|| e)`, `place.take()` at
+          the head of a method chain, `String` + `format!` (the list of the formatted values), `assert!` /
+          `assert_eq!`, `x.into()` (identity / the one `#[from]` variant / `T: Into<U>` as an explicit parameter),
+          `fn f(x: &mut T, ..) -> R` (ONE `&mut` parameter: state passing, `f` returns `T x R`; a call passes a field
+          path of a mutable variable and is a whole statement / initialiser / tail / scrutinee), `u64 / <literal>`,
+          `t.checked_add_signed(d)`, `v.iter().filter(|x| c)` on a `Vec` (order kept), `n.to_smolstr()`, constructors
+          of opaque identifier types from such text, structs with option `keep` / `drop` (fields outside the
+          vocabulary left out), `for` ONLY over `values_mut()`.
 Everything else is REJECTED: exit status 1 and a message naming the function and the construct (loops,
 closures, iterators, `&mut` borrows and `&mut`-returning accessors, indexing, string / float literals, other
 macros, other methods, maps, trait objects, lifetimes, `..` struct update, `as` casts other than u64 -> i64,
@@ -159,6 +203,11 @@ OSTATE = "barter-execution/src/order/state.rs"
 OREQ = "barter-execution/src/order/request.rs"
 OID = "barter-execution/src/order/id.rs"
 XERR = "barter-execution/src/error.rs"
+EXCH = "barter-instrument/src/exchange.rs"
+ANAME = "barter-instrument/src/asset/name.rs"
+INAME = "barter-instrument/src/instrument/name.rs"
+MOCK = "barter-execution/src/exchange/mock/mod.rs"
+MACC = "barter-execution/src/exchange/mock/account.rs"
 
 # (group, file, container, kind, name, options)     container: None = file top level, "mod x" or "impl X"
 MACHINES = [
@@ -247,8 +296,8 @@ MACHINES = [
     ("pnl_returns", INSTR, None, "struct", "TearSheetGenerator", {}),
     ("pnl_returns", INSTR, "impl TearSheetGenerator", "fn", "init", {}),
     ("pnl_returns", INSTR, "impl TearSheetGenerator", "fn", "update_from_position", {}),
-    ("registers", BAL, None, "struct", "Balance", {}),
-    ("registers", BAL, None, "struct", "AssetBalance", {}),
+    ("registers+mock", BAL, None, "struct", "Balance", {}),
+    ("registers+mock", BAL, None, "struct", "AssetBalance", {}),
     ("registers+orders", SNAP, None, "struct", "Snapshot", {}),
     ("registers", SNAP, "impl Snapshot", "fn", "value", {}),
     ("registers", SUMASSET, None, "struct", "TearSheetAssetGenerator", {}),
@@ -312,7 +361,9 @@ MACHINES = [
     ("clock", CLOCK, "impl Processor<&Event> for HistoricalClock", "fn", "process", {}),
     # ---- third generated file (Machines3.lean) from here on: state machines over MAP containers
     ("orders", OID, None, "opaque", "ClientOrderId", {}),
-    ("orders", XERR, None, "opaque", "OrderError", {"item": "enum", "generic": True}),
+    ("orders+mock", XERR, None, "enum", "ConnectivityError", {}),
+    ("orders+mock", XERR, None, "enum", "ApiError", {}),
+    ("orders+mock", XERR, None, "enum", "OrderError", {}),
     ("orders", OMOD, None, "enum", "OrderKind", {}),
     ("orders", OMOD, None, "enum", "TimeInForce", {}),
     ("orders", OMOD, None, "struct", "OrderKey", {}),
@@ -340,6 +391,37 @@ MACHINES = [
     ("orders", ORD, "impl OrderManager for Orders", "fn", "update_from_cancel_response", {}),
     ("orders", ORD, "impl InFlightRequestRecorder for Orders", "fn", "record_in_flight_cancel", {}),
     ("orders", ORD, "impl InFlightRequestRecorder for Orders", "fn", "record_in_flight_open", {}),
+    ("mock", ANAME, None, "opaque", "AssetNameExchange", {}),
+    ("mock", INAME, None, "opaque", "InstrumentNameExchange", {}),
+    ("mock", "barter-instrument/src/lib.rs", None, "struct", "Underlying", {}),
+    ("mock", "barter-instrument/src/instrument/mod.rs", None, "struct", "Instrument", {"keep": ["underlying"]}),
+    ("mock", TRADE, "impl AssetFees<QuoteAsset>", "fn", "quote_fees", {}),
+    ("mock", OREQ, None, "alias", "UnindexedOrderResponseCancel", {}),
+    ("mock", XERR, None, "alias", "UnindexedApiError", {}),
+    ("mock", XERR, None, "alias", "UnindexedOrderError", {}),
+    ("mock", MACC, None, "struct", "AccountState", {}),
+    ("mock", MACC, "impl AccountState", "fn", "update_time_exchange", {}),
+    ("mock", MACC, "impl AccountState", "fn", "trades", {}),
+    ("mock", MACC, "impl AccountState", "fn", "ack_trade", {}),
+    ("mock", MOCK, None, "struct", "OpenOrderNotifications", {}),
+    ("mock", MOCK, None, "struct", "MockExchange", {"drop": ["request_rx", "event_tx"]}),
+    ("mock", MOCK, "impl MockExchange", "fn", "update_time_exchange", {}),
+    ("mock", MOCK, "impl MockExchange", "fn", "time_exchange", {}),
+    ("mock", MOCK, "impl MockExchange", "fn", "validate_order_kind_supported", {}),
+    ("mock", MOCK, "impl MockExchange", "fn", "find_instrument_data", {}),
+    ("mock", MOCK, "impl MockExchange", "fn", "order_id_sequence_fetch_add", {}),
+    ("mock", MOCK, None, "fn", "build_open_order_err_response", {}),
+    ("mock", MOCK, "impl MockExchange", "fn", "open_order", {}),
+    ("connectivity_updates", EXCH, None, "struct", "ExchangeIndex", {}),
+    ("connectivity_updates", EXCH, "impl ExchangeIndex", "fn", "index", {}),
+    ("connectivity_updates", CONN, None, "struct", "ConnectivityStates", {}),
+    ("connectivity_updates", CONN, "impl ConnectivityStates", "fn", "connectivity_index", {}),
+    ("connectivity_updates", CONN, "impl ConnectivityStates", "fn", "connectivity", {}),
+    ("connectivity_updates", CONN, "impl ConnectivityStates", "fn", "exchange_states", {}),
+    ("connectivity_updates", CONN, "impl ConnectivityStates", "fn", "update_from_account_reconnecting", {}),
+    ("connectivity_updates", CONN, "impl ConnectivityStates", "fn", "update_from_account_event", {}),
+    ("connectivity_updates", CONN, "impl ConnectivityStates", "fn", "update_from_market_reconnecting", {}),
+    ("connectivity_updates", CONN, "impl ConnectivityStates", "fn", "update_from_market_event", {}),
 ]
 GROUPS = ["sequencer", "drawdown", "position_sm", "connectivity"]     # -> Generated/Machines.lean
 GROUPS2 = ["dataset", "pnl_returns", "registers", "risk", "metrics", "clock"]                                                 # -> Generated/Machines2.lean (imports the first)
@@ -466,6 +548,187 @@ def Decimal.checked_sub (x y : Rat) : Option Rat := some (x - y)
 
 /-- `f64`, uninterpreted (see above); any injective coding of the bit patterns would do. -/
 abbrev F64 := Nat
+"""
+
+AGREE3 = ["OrdersSM", "MockSM", "ConnectivityUpdSM"]
+
+PRELUDE3 = """\
+/-! ## Prelude, continued: the MAP vocabulary (trusted like the preludes of Machines.lean / Machines2.lean)
+
+The translated functions of this file keep their state in `HashMap` / `FnvHashMap` / `IndexMap` containers.  The
+translator accepts a small, closed set of operations on them and gives each the FIXED meaning below; every other
+use of a map (iteration with `iter()` / `keys()` / `values()` / `drain()` / `retain()` whose order could be observed,
+`extend`, indexing `m[k]`, `for` loops over it, ...) is rejected by name.
+
+* `HashMap<K, V>` / `FnvHashMap<K, V>` is `Rust.Map K V`: a finite map written as an ASSOCIATION LIST read through
+  `Rust.Map.get` (first pair with that key).  `m.get(k)` is `Rust.Map.get m k`; `m.contains_key(k)`;
+  `m.insert(k, v)` writes `Rust.Map.insert m k v` (every pair with key `k` removed, `(k, v)` put in front) and
+  returns the old `Rust.Map.get m k`; `m.remove(k)` writes `Rust.Map.remove m k` (every pair with key `k` removed)
+  and returns the old value; `HashMap::default()` / `new()` is the empty list; `m.len()` / `m.is_empty()` count the
+  pairs (faithful on lists with unique keys, which `insert` / `remove` / `map_values` preserve:
+  Lemmas/KernelsAgree/MapVocab.lean proves this and the finite-map laws `get (insert m k v) k' = if k' = k then some v
+  else get m k'`, `get (remove m k) k' = if k' = k then none else get m k'`).  The POSITION of a pair in the list has
+  no meaning: hash order is never observable through the accepted operations, which are the ones above plus
+  `m.values().all(p)` / `.any(p)` (order-free; `values()` alone has the type `Rust.Bag`, a list whose only accepted
+  consumers are `all` / `any`) and `for x in m.values_mut() { x.f = e; .. }` / `m.values_mut().for_each(|x| x.f = e)`
+  with a body that only assigns fields of `x` from values that do not depend on the map (`Rust.Map.map_values`).
+* `m.get_mut(k)` (`Option<&mut V>`) is accepted ONLY in the forms `let Some(x) = m.get_mut(k) else { ..diverges.. };`,
+  `if let Some(x) = m.get_mut(k) { .. }`, `let x = m.get_mut(k).expect(..) / .unwrap() / .unwrap_or_else(|| panic!(..));`
+  and as the left side of an assignment `m.get_mut(k).unwrap().f = e;` on a map that is a field path of `&mut self` /
+  a mutable local: `x` is a mutable local holding `Rust.Map.get m k`, and every change of `x` is written back at once as
+  `Rust.Map.insert m k x` (for code the borrow checker accepts this is the meaning of the borrow: while `x` is alive
+  nothing else reads or writes `m`; the panic of `expect` on a missing key is `Rust.unreachable` for the whole function).
+* The Entry API: `m.entry(k)` is `Rust.Map.entry m k : Rust.Entry K V`, a two-constructor VIEW of `Rust.Map.get m k`:
+  `Entry::Occupied(e)` with `e.key = k` and `e.value` the current value, `Entry::Vacant(e)` with `e.key = k`.
+  `e.get()` / `e.get_mut()` read `e.value`; an assignment through `e.get_mut()` changes `e.value` and writes
+  `Rust.Map.insert m e.key e.value` at once; `e.insert(v)` on an occupied entry likewise (returns the old value);
+  `e.remove()` writes `Rust.Map.remove m e.key` and returns `e.value`; `e.insert(v)` on a vacant entry writes
+  `Rust.Map.insert m e.key v` (its `&mut V` result must be discarded); `e.key()` is `e.key`.  The translator records
+  in the TYPE of an entry which map place (field path of `self`) it borrows, so the handle may travel through tuples,
+  `let` and `match` patterns.
+* `IndexMap<K, V>` / `FnvIndexMap<K, V>` is `Rust.IndexMap K V`: a list of pairs addressed by POSITION (insertion
+  order, which IS observable) and by key: `m.get(k)` first pair with that key, `m.get_index(i)` the pair at position
+  `i`, `m.get_mut(k)` / `m.get_index_mut(i)` as for `HashMap::get_mut` with the write-back `Rust.IndexMap.set m k x` /
+  `Rust.IndexMap.set_index m i x` IN PLACE (position and key unchanged), `m.values().all(p)` / `.any(p)`, `m.len()`.
+  Insertion / removal on an `IndexMap` is not in the vocabulary (rejected).
+* A user function returning `&mut T` / `Option<&mut T>` (`fn acc(&mut self, ..) -> &mut T`) is accepted only if its body
+  is ONE accessor expression of the forms above over a field path of `self` (`self.f.get_mut(k)`,
+  `self.f.get_mut(k).unwrap_or_else(|| panic!(..))`, `self.f.get_index_mut(i).map(|(_k, v)| v).expect(..)`, ...); a call of
+  it is read as that expression with the arguments substituted, under the same rule as `get_mut`.
+* Option combinators added: `o.filter(|x| c)`, `o.unwrap_or_else(|| e)` (pure `e`: eager and lazy evaluation agree;
+  `|| panic!(..)` is `Rust.unreachable`), `o.cloned()` / `o.copied()` (identity), `o.ok_or(e)` / `o.ok_or_else(|| e)`,
+  `o.take()` in the middle of a method chain (taken out in evaluation order).
+* `Result` patterns `Ok(p)` / `Err(p)`; `let <refutable pattern> = e else { ..diverges.. };` and
+  `if let <refutable pattern> = e { .. } else { .. }` on enums are `match e with | p => .. | _ => ..`; a `match` with
+  guards whose patterns take values apart is a Lean `match` on the (let-bound) scrutinee in which a guarded arm
+  `p if g => a` reads `| p => if g then a else <the same match over the arms that follow>`; nested or-patterns
+  `(A | B, c)` are written out as the alternatives `(A, c) | (B, c)`; arms that earlier arms make unreachable are left
+  out (Lean rejects redundant alternatives) and a guarded arm whose later arms do not cover its pattern on their own
+  is rejected.
+* `String` is `Rust.Str`: translated code only builds strings with `format!("template", a, b)` (error messages), stores and
+  moves them, and never inspects them; such a value is the list of the values formatted into it, in order
+  (`Decimal` / integers / times / identifier types; the template text, positional or inline `{name}` placeholders
+  included, is NOT modelled).  `n.to_smolstr()` of a `u64` and `id.0` of an opaque identifier type are the text of an
+  identifier, kept as the number (an injective coding, like the opaque identifier types themselves), from which
+  `Id(text)` / `Id::new(text)` builds an identifier.
+* `assert!(c)` / `assert_eq!(a, b)` panic unless the condition holds: `if c then <rest> else Rust.unreachable`.
+* `x.into()`: the identity (`From<T> for T`), or the ONE one-field variant `V(T)` of the target enum that carries
+  `#[from]` (thiserror) / whose enum derives `From` (derive_more); on a value of a type parameter `T` with the bound
+  `T: Into<U>` it is the explicit parameter `T_into : T -> U`, which every translated caller supplies by the same rule.
+* `a / n` on `u64` with a non-zero integer LITERAL `n` is `Nat` division (no panic, truncating like Rust);
+  `t.checked_add_signed(d)` on a `DateTime` is `some (t + d)` (overflow is not modelled).
+* `v.iter()` on a `Vec` keeps the order; `.filter(|x| c)` is `List.filter`, `.cloned()` the identity; such an iterator may
+  be returned as `impl Iterator<Item = &T>` (it then has the type of `values()`, whose order nobody may observe).
+* A struct translated with option `keep` / `drop` lacks the fields that are outside the vocabulary (channels, ...): no
+  translated function may read them, and translated code cannot construct the struct.
+* A type argument that Rust infers from a LATER use (the error type of an `Ok(..)` bound by `let`) is written `_` in the
+  `let` and left to Lean's elaborator.
+* A generic `enum E<A, B>` is an inductive type with parameters; a type alias `type N<P..> = T;` (kind `alias`) is
+  expanded at every use (also as the name of a struct pattern / literal); an `opaque` identifier type may have type
+  parameters, which are ignored (option `generic`); methods with a `self` receiver on an enum are translated like
+  those on a struct (`&self` / `self` only).
+-/
+
+/-- one value formatted into a `String` by `format!` -/
+inductive Rust.FmtArg where
+  | dec (x : Rat)
+  | nat (n : Nat)
+  | int (i : Int)
+  | id (n : Nat)
+  deriving DecidableEq, Repr
+
+/-- `String`, as far as the translated code is concerned: a message built by `format!`, known by the values
+formatted into it, in order (the template text is not modelled). -/
+structure Rust.Str where
+  args : List Rust.FmtArg
+  deriving DecidableEq, Repr, Inhabited
+
+/-- `HashMap<K, V>` / `FnvHashMap<K, V>`: a finite map as an association list (see above). -/
+abbrev Rust.Map (K V : Type) := List (K × V)
+
+/-- `HashMap::default()` / `HashMap::new()`. -/
+def Rust.Map.empty {K V : Type} : Rust.Map K V := []
+
+/-- `m.get(k)`: the value of the first pair with key `k`. -/
+def Rust.Map.get {K V : Type} [DecidableEq K] (m : Rust.Map K V) (k : K) : Option V :=
+  match m with
+  | [] => none
+  | (k', v) :: rest => if k' = k then some v else Rust.Map.get rest k
+
+/-- `m.remove(k)` (the map afterwards): every pair with key `k` removed. -/
+def Rust.Map.remove {K V : Type} [DecidableEq K] (m : Rust.Map K V) (k : K) : Rust.Map K V :=
+  match m with
+  | [] => []
+  | (k', v) :: rest => if k' = k then Rust.Map.remove rest k else (k', v) :: Rust.Map.remove rest k
+
+/-- `m.insert(k, v)` (the map afterwards), also the write-back of `get_mut` / an entry: `k` is bound to `v` only. -/
+def Rust.Map.insert {K V : Type} [DecidableEq K] (m : Rust.Map K V) (k : K) (v : V) : Rust.Map K V :=
+  (k, v) :: Rust.Map.remove m k
+
+/-- `m.contains_key(k)`. -/
+def Rust.Map.contains_key {K V : Type} [DecidableEq K] (m : Rust.Map K V) (k : K) : Bool := (Rust.Map.get m k).isSome
+
+/-- `m.len()` (faithful on lists with unique keys). -/
+def Rust.Map.len {K V : Type} (m : Rust.Map K V) : Nat := m.length
+
+/-- what `values()` yields: a collection WITHOUT a meaningful order; only `all` / `any` consume it. -/
+abbrev Rust.Bag (V : Type) := List V
+
+/-- `m.values()`. -/
+def Rust.Map.values {K V : Type} (m : Rust.Map K V) : Rust.Bag V := m.map (·.2)
+
+/-- `for x in m.values_mut() { .. }` with a body that is a function of `x` alone: that function on every value. -/
+def Rust.Map.map_values {K V : Type} (f : V → V) (m : Rust.Map K V) : Rust.Map K V := m.map fun kv => (kv.1, f kv.2)
+
+/-- An occupied entry: its key and the CURRENT value. -/
+structure Rust.OccupiedEntry (K V : Type) where
+  key : K
+  value : V
+  deriving DecidableEq, Repr
+
+/-- A vacant entry: its key. -/
+structure Rust.VacantEntry (K : Type) where
+  key : K
+  deriving DecidableEq, Repr
+
+/-- `std::collections::hash_map::Entry`: a view of `Rust.Map.get m k`. -/
+inductive Rust.Entry (K V : Type) where
+  | Occupied (e : Rust.OccupiedEntry K V)
+  | Vacant (e : Rust.VacantEntry K)
+  deriving DecidableEq, Repr
+
+/-- `m.entry(k)`. -/
+def Rust.Map.entry {K V : Type} [DecidableEq K] (m : Rust.Map K V) (k : K) : Rust.Entry K V :=
+  match Rust.Map.get m k with
+  | some v => Rust.Entry.Occupied { key := k, value := v }
+  | none => Rust.Entry.Vacant { key := k }
+
+/-- `IndexMap<K, V>` / `FnvIndexMap<K, V>`: pairs in insertion order, addressed by position and by key. -/
+abbrev Rust.IndexMap (K V : Type) := List (K × V)
+
+/-- `m.get(k)` on an `IndexMap`. -/
+def Rust.IndexMap.get {K V : Type} [DecidableEq K] (m : Rust.IndexMap K V) (k : K) : Option V := Rust.Map.get m k
+
+/-- `m.get_index(i)`: the pair at position `i`. -/
+def Rust.IndexMap.get_index {K V : Type} (m : Rust.IndexMap K V) (i : Nat) : Option (K × V) := m[i]?
+
+/-- write-back of `m.get_mut(k)`: the value of the first pair with key `k` replaced IN PLACE. -/
+def Rust.IndexMap.set {K V : Type} [DecidableEq K] (m : Rust.IndexMap K V) (k : K) (v : V) : Rust.IndexMap K V :=
+  match m with
+  | [] => []
+  | (k', v') :: rest => if k' = k then (k', v) :: rest else (k', v') :: Rust.IndexMap.set rest k v
+
+/-- write-back of `m.get_index_mut(i)`: the value at position `i` replaced, its key kept. -/
+def Rust.IndexMap.set_index {K V : Type} (m : Rust.IndexMap K V) (i : Nat) (v : V) : Rust.IndexMap K V :=
+  match m[i]? with
+  | some kv => List.set m i (kv.1, v)
+  | none => m
+
+/-- `m.values()` on an `IndexMap`. -/
+def Rust.IndexMap.values {K V : Type} (m : Rust.IndexMap K V) : Rust.Bag V := m.map (·.2)
+
+/-- `m.len()` on an `IndexMap`. -/
+def Rust.IndexMap.len {K V : Type} (m : Rust.IndexMap K V) : Nat := m.length
 """
 
 
@@ -641,30 +904,7 @@ def aux_translate(world, cont, name):
         raise Reject(world.aux_failed[(cont, name)])
     if (cont, name) in world.aux_busy:
         raise Reject(f"recursive call of `{shown}`")
-    files = [ctx.rel]
-    if cont is not None and world.item_file.get(cont) not in (None, ctx.rel):
-        files.append(world.item_file[cont])
-    cands = []
-    for rel in files:
-        raw, text = world.source(rel)
-        if cont is None:
-            if ctx.container and ctx.container.startswith("mod ") and rel == ctx.rel:
-                lo, hi, _, _ = find_container(text, ctx.container)
-                cands = [(rel, a, b, [], None, ctx.container, None) for a, b in fn_spans(text, lo, hi, name)]
-            if not cands:
-                cands = [(rel, a, b, [], None, None, None) for a, b in fn_spans(text, 0, len(text), name)]
-        elif cont in world.structs or cont in world.enums:
-            for lo, hi, gs, tr, ty in impl_blocks(text):
-                if base_name(ty) == cont:
-                    label = "impl " + ("".join(tr) + " for " if tr else "") + "".join(ty)
-                    cands += [(rel, a, b, gs, ty, label, (lo, hi) if tr else None) for a, b in fn_spans(text, lo, hi, name)]
-        else:
-            hits = [m for m in re.finditer(r"\bmod\s+%s\s*\{" % re.escape(cont), text) if depth_at(text, 0, m.start()) == 0]
-            if len(hits) == 1:
-                lo, hi = hits[0].end(), match_brace(text, hits[0].end() - 1)
-                cands = [(rel, a, b, [], None, "mod " + cont, None) for a, b in fn_spans(text, lo, hi, name)]
-        if cands:
-            break
+    cands = lookup_candidates(world, cont, name)
     if not cands:
         return None
     rel, a, b, gs, sty_toks, label, assoc_span = cands[0]
@@ -702,6 +942,37 @@ def aux_translate(world, cont, name):
     return key
 
 
+def lookup_candidates(world, cont, name):
+    """where a function / method `cont::name` that is not in the item table is defined (see aux_translate): a list of
+    (file, start, end, impl generics [token lists], self type tokens | None, container label, span of the trait impl | None)"""
+    ctx = world.ctx
+    files = [ctx.rel]
+    if cont is not None and world.item_file.get(cont) not in (None, ctx.rel):
+        files.append(world.item_file[cont])
+    cands = []
+    for rel in files:
+        raw, text = world.source(rel)
+        if cont is None:
+            if ctx.container and ctx.container.startswith("mod ") and rel == ctx.rel:
+                lo, hi, _, _ = find_container(text, ctx.container)
+                cands = [(rel, a, b, [], None, ctx.container, None) for a, b in fn_spans(text, lo, hi, name)]
+            if not cands:
+                cands = [(rel, a, b, [], None, None, None) for a, b in fn_spans(text, 0, len(text), name)]
+        elif cont in world.structs or cont in world.enums:
+            for lo, hi, gs, tr, ty in impl_blocks(text):
+                if base_name(ty) == cont:
+                    label = "impl " + ("".join(tr) + " for " if tr else "") + "".join(ty)
+                    cands += [(rel, a, b, gs, ty, label, (lo, hi) if tr else None) for a, b in fn_spans(text, lo, hi, name)]
+        else:
+            hits = [m for m in re.finditer(r"\bmod\s+%s\s*\{" % re.escape(cont), text) if depth_at(text, 0, m.start()) == 0]
+            if len(hits) == 1:
+                lo, hi = hits[0].end(), match_brace(text, hits[0].end() - 1)
+                cands = [(rel, a, b, [], None, "mod " + cont, None) for a, b in fn_spans(text, lo, hi, name)]
+        if cands:
+            break
+    return cands
+
+
 def attributes_before(text, start):
     """the `#[..]` attributes (comments are already blanked) and the visibility directly before the item that starts at
     `start`: (offset where they begin, [attribute texts])"""
@@ -727,6 +998,41 @@ def attributes_before(text, start):
         attrs.append(head[k:])
         head = head[:k].rstrip()
     return len(head), list(reversed(attrs))
+
+
+def ensure_inhabited(world, t):
+    """can the Lean type of `t` be given an `Inhabited` instance (needed where a panic, `Rust.unreachable`, stands for a whole
+    state)?  The `deriving instance Inhabited for ..` lines for translated structs / enums are appended to world.pending
+    once.  Conservative: a type parameter is never inhabited, a generic struct / enum only at inhabited arguments."""
+    k = t[0]
+    if k in SCALAR_LEAN or k in ("opt", "list", "map", "imap", "bag", "opaque"):
+        return True
+    if k == "lock":
+        return ensure_inhabited(world, t[1])
+    if k == "tuple":
+        return all(ensure_inhabited(world, a) for a in t[1])
+    if k == "res":
+        return ensure_inhabited(world, t[2])
+    if k in ("struct", "enum"):
+        name = t[1]
+        targs = t[2] if len(t) == 3 else ()
+        if not all(ensure_inhabited(world, a) for a in targs):
+            return False
+        if name not in world.inhabited:
+            world.inhabited[name] = False          # (recursive types: not inhabited by this rule)
+            if k == "struct":
+                st = world.structs[name]
+                gen = {g: ("nat",) for g in st.generics}
+                ok = all(ensure_inhabited(world, subst(ft, gen)) for _, ft in st.fields)      # (dropped fields are not in the Lean structure)
+            else:
+                en = world.enums[name]
+                gen = {g: ("nat",) for g in en.generics}
+                ok = any(all(ensure_inhabited(world, subst(ft, gen)) for _, ft in fs) for _, _, fs in en.variants)
+            world.inhabited[name] = ok
+            if ok and name != "Ordering":
+                world.pending.append(f"deriving instance Inhabited for {ty_name(name)}")
+        return world.inhabited[name]
+    return False
 
 
 def default_of(world, t):
@@ -784,9 +1090,11 @@ class Parser:
         return self.next()
 
     def skip_attrs(self):
+        self.last_attrs = []         # first identifier of every attribute skipped by this call (`from` of `#[from]`)
         while self.peek() == "#":
             self.next()
             self.eat("[")
+            self.last_attrs.append(self.peek())
             d = 1
             while d:
                 v = self.next()
@@ -891,8 +1199,10 @@ class Parser:
         """(name, [(variant, shape, [(field, type tokens)])])   shape: unit | tuple | struct"""
         self.eat("enum")
         name = self.ident()
+        self.enum_generics = self.generics()
+        self.enum_from = set()       # variants whose one field carries `#[from]` (thiserror / derive_more): `From<Field> for Enum`
         if self.peek() != "{":
-            raise Reject(f"enum `{name}`: generics / where clause")
+            raise Reject(f"enum `{name}`: where clause")
         self.eat("{")
         variants = []
         while self.peek() != "}":
@@ -905,6 +1215,8 @@ class Parser:
                 k = 0
                 while self.peek() != ")":
                     self.skip_attrs()
+                    if "from" in self.last_attrs:
+                        self.enum_from.add(v)
                     fields.append((f"f{k}", self.type_tokens({","})))
                     k += 1
                     if self.peek() == ",":
@@ -978,10 +1290,44 @@ class Parser:
         if self.peek() == "->":
             self.next()
             ret = self.type_tokens({"where", "{"})
+        self.where_into = {}
         if self.peek() == "where":
-            # bounds of generic parameters only say which operators T has; skipped
+            # bounds of generic parameters only say which operators T has; skipped -- except `T: Into<U>`, which says
+            # what `x.into()` of a value of the type parameter T is: the explicit conversion parameter `T_into : T -> U`
+            self.next()
+            wt = []
             while self.peek() not in ("{", "<end>"):
-                self.next()
+                wt.append(self.next())
+            d, cur, clauses = 0, [], []
+            for x in wt:
+                if x in ("<", "(", "["):
+                    d += 1
+                elif x in (">", ")", "]"):
+                    d -= 1
+                if x == "," and d == 0:
+                    clauses.append(cur)
+                    cur = []
+                else:
+                    cur.append(x)
+            if cur:
+                clauses.append(cur)
+            for cl in clauses:
+                if len(cl) > 3 and cl[1] == ":" and re.fullmatch(r"[A-Za-z_]\w*", cl[0]):
+                    d, cur, bounds = 0, [], []
+                    for x in cl[2:]:
+                        if x in ("<", "(", "["):
+                            d += 1
+                        elif x in (">", ")", "]"):
+                            d -= 1
+                        if x == "+" and d == 0:
+                            bounds.append(cur)
+                            cur = []
+                        else:
+                            cur.append(x)
+                    bounds.append(cur)
+                    for b in bounds:
+                        if len(b) > 3 and b[0] == "Into" and b[1] == "<" and b[-1] == ">":
+                            self.where_into[cl[0]] = b[2:-1]
         if sig_only:
             if self.peek() != "{":
                 raise Reject(f"`{self.peek()}` where the function body should start")
@@ -1040,9 +1386,43 @@ class Parser:
                 elif self.peek() != "}":
                     raise Reject(f"`{self.peek()}` after `{v}!(..)`")
                 continue
+            if self.kind() == "id" and v in ("assert", "assert_eq", "assert_ne", "debug_assert", "debug_assert_eq") and self.peek(1) == "!" \
+                    and self.peek(2) == "(":
+                # `assert!(c)` / `assert_eq!(a, b)`: a panic unless the condition holds (an optional message is skipped)
+                if v.startswith("debug_"):
+                    raise Reject(f"`{v}!` (only checked in debug builds)")
+                self.next(); self.next()
+                self.eat("(")
+                c = self.expr()
+                if v != "assert":
+                    self.eat(",")
+                    c = ("bin", "==" if v == "assert_eq" else "!=", c, self.expr())
+                d = 1
+                while d:
+                    x = self.next()
+                    d += x in ("(", "[", "{")
+                    d -= x in (")", "]", "}")
+                    if x == "<end>":
+                        raise Reject(f"unterminated `{v}!`")
+                if self.peek() == ";":
+                    self.next()
+                elif self.peek() != "}":
+                    raise Reject(f"`{self.peek()}` after `{v}!(..)`")
+                stmts.append(("expr", ("assert", c)))
+                continue
             if v in ("fn", "struct", "enum", "impl", "const", "static", "type", "mod", "trait"):
                 raise Reject(f"`{v}` item inside a function body")
-            if v in ("for", "while", "loop"):
+            if v == "for":
+                # `for x in <iterator> { .. }`: accepted by the compiler only over `<map place>.values_mut()` (PRELUDE3)
+                self.next()
+                pat = self.pattern()
+                if self.peek() != "in":
+                    raise Reject("`for` without `in`")
+                self.next()
+                it = self.expr(ns=True)
+                stmts.append(("expr", ("for", pat, it, self.block())))
+                continue
+            if v in ("while", "loop"):
                 raise Reject(f"`{v}` loop")
             if v == "#":
                 raise Reject("attribute inside a function body")
@@ -1089,6 +1469,15 @@ class Parser:
         return e
 
     # -- patterns
+    def pattern_or(self):
+        """a sub-pattern, which may be an or-pattern `p | q` (-> ("por", [p, q]); written out as top-level alternatives
+        by the compiler: expand_or)"""
+        ps = [self.pattern()]
+        while self.peek() == "|":
+            self.next()
+            ps.append(self.pattern())
+        return ps[0] if len(ps) == 1 else ("por", ps)
+
     def pattern(self):
         v = self.peek()
         if v == "_":
@@ -1100,7 +1489,7 @@ class Parser:
             self.next()
             ps = []
             while self.peek() != ")":
-                ps.append(self.pattern())
+                ps.append(self.pattern_or())
                 if self.peek() == ",":
                     self.next()
             self.eat(")")
@@ -1126,7 +1515,7 @@ class Parser:
             self.next()
             ps = []
             while self.peek() != ")":
-                ps.append(self.pattern())
+                ps.append(self.pattern_or())
                 if self.peek() == ",":
                     self.next()
             self.eat(")")
@@ -1142,7 +1531,7 @@ class Parser:
                 f = self.ident()
                 if self.peek() == ":":
                     self.next()
-                    fps.append((f, self.pattern()))
+                    fps.append((f, self.pattern_or()))
                 else:
                     fps.append((f, ("pbind", f, False)))
                 if self.peek() == ",":
@@ -1232,6 +1621,8 @@ class Parser:
         self.eat("(")
         out = []
         while self.peek() != ")":
+            if self.peek() == "move" and self.peek(1) in ("|", "||"):
+                self.next()              # captures by value instead of by reference: the same value (references are values)
             if self.peek() in ("|", "||"):
                 out.append(self.closure())
             else:
@@ -1249,9 +1640,14 @@ class Parser:
         if self.next() == "||":
             param = None
         else:
-            if self.peek() in ("&", "mut", "(", "_") or self.kind() != "id":
-                raise Reject(f"closure parameter pattern starting `{self.peek()}` (only `|x|`)")
-            param = self.ident()
+            if self.peek() == "(":
+                param = self.pattern()
+                if not (param[0] == "ptuple" and all(q[0] in ("pbind", "pwild") and not (q[0] == "pbind" and q[2]) for q in param[1])):
+                    raise Reject("closure parameter pattern other than `|x|` / `|(a, b)|`")
+            elif self.peek() in ("&", "mut", "_") or self.kind() != "id":
+                raise Reject(f"closure parameter pattern starting `{self.peek()}` (only `|x|` / `|(a, b)|`)")
+            else:
+                param = self.ident()
             if self.peek() == ":":
                 raise Reject("typed closure parameter")
             if self.peek() == ",":
@@ -1354,6 +1750,23 @@ class Parser:
                     elif x == "<end>":
                         raise Reject(f"unterminated `{shown}!`")
                 return ("panic", shown)
+            if shown == "format" and self.peek(1) == "(":
+                # `format!("template", a, b)`: the template text is not modelled, the value is the list of its arguments
+                self.next()
+                self.eat("(")
+                if not (self.peek() == '"' and self.peek(1) == '"'):
+                    raise Reject("`format!` whose first argument is not a string literal")
+                self.next(); self.next()
+                fargs = []
+                while self.peek() == ",":
+                    self.next()
+                    if self.peek() == ")":
+                        break
+                    if self.kind() == "id" and self.peek(1) == "=":
+                        raise Reject("named argument in `format!`")
+                    fargs.append(self.expr())
+                self.eat(")")
+                return ("format", fargs)
             if shown == "matches" and self.peek(1) == "(":
                 # `matches!(e, p | q if g)` is by definition `match e { p | q if g => true, _ => false }`
                 self.next()
@@ -1455,23 +1868,60 @@ class Parser:
 # ------------------------------------------------------------------------------------------ types / world
 
 NAT, INT, DEC, BOOL, UNIT, TIME, DELTA, HOLE, INTLIT = ("nat",), ("int",), ("dec",), ("bool",), ("unit",), ("time",), ("delta",), ("hole",), ("intlit",)
+STR = ("str",)     # `String`: the values formatted into it (PRELUDE3: `Rust.Str`); only built by `format!`, stored and moved
+IDSTR = ("idstr",)  # the text of an identifier (`n.to_smolstr()` of a u64, `id.0` of an opaque identifier type): Nat, like the opaque types
 F64 = ("f64",)     # uninterpreted: only stored, copied and handed to extern functions (no arithmetic, no comparison)
-SCALAR_LEAN = {"nat": "Nat", "int": "Int", "dec": "Rat", "bool": "Bool", "unit": "Unit", "time": "Int", "delta": "Int", "f64": "F64"}
+SCALAR_LEAN = {"nat": "Nat", "int": "Int", "dec": "Rat", "bool": "Bool", "unit": "Unit", "time": "Int", "delta": "Int", "f64": "F64",
+               "str": "Rust.Str", "idstr": "Nat"}
 SCALAR_RUST = {"nat": "u64", "int": "i64", "dec": "Decimal", "bool": "bool", "unit": "()", "time": "DateTime<Utc>", "delta": "TimeDelta",
-               "hole": "_", "intlit": "{integer}", "f64": "f64"}
+               "hole": "_", "intlit": "{integer}", "f64": "f64", "str": "String", "idstr": "SmolStr"}
+
+
+# Types added for the map vocabulary (PRELUDE3):
+#   ("map", K, V) `HashMap` / `FnvHashMap`      ("imap", K, V) `IndexMap` / `FnvIndexMap`      ("bag", V) what `values()` yields
+#   ("entry" | "occ" | "vac", K, V, place) the Entry API; `place` = (root variable, (fields..)) is the map the handle borrows
+#   ("enum", Name, (args..)) an instance of a GENERIC enum (a non-generic enum stays the pair ("enum", Name))
+MAPLIKE = ("map", "imap")
+ENTRYLIKE = ("entry", "occ", "vac")
+# names of enum variants translated so far: inside `def E.f ..` Lean opens the namespace `E`, where a variant `E.Open` would
+# capture a translated TYPE of the same name (`Open`); such type names are written with their full name
+VARIANT_NAMES = set()
+FULL = "_root_.BarterModel.Generated.Machines."
+
+
+def ty_name(n):
+    return FULL + n if n in VARIANT_NAMES else n
 
 
 def ty_lean(t):
     k = t[0]
     if k in SCALAR_LEAN:
         return SCALAR_LEAN[k]
+    if k == "map":
+        return f"Rust.Map {ty_atom(t[1])} {ty_atom(t[2])}"
+    if k == "imap":
+        return f"Rust.IndexMap {ty_atom(t[1])} {ty_atom(t[2])}"
+    if k == "bag":
+        return f"Rust.Bag {ty_atom(t[1])}"
+    if k == "seq":
+        return f"List {ty_atom(t[1])}"
+    if k == "entry":
+        return f"Rust.Entry {ty_atom(t[1])} {ty_atom(t[2])}"
+    if k == "occ":
+        return f"Rust.OccupiedEntry {ty_atom(t[1])} {ty_atom(t[2])}"
+    if k == "vac":
+        return f"Rust.VacantEntry {ty_atom(t[1])}"
+    if k == "enum" and len(t) == 3:
+        return " ".join([ty_name(t[1])] + [ty_atom(a) for a in t[2]])
     if k == "opt":
         return f"Option {ty_atom(t[1])}"
     if k == "res":
         return f"Except {ty_atom(t[2])} {ty_atom(t[1])}"
     if k == "struct":
-        return " ".join([t[1]] + [ty_atom(a) for a in t[2]])
-    if k in ("enum", "tvar", "opaque"):
+        return " ".join([ty_name(t[1])] + [ty_atom(a) for a in t[2]])
+    if k in ("enum", "opaque"):
+        return ty_name(t[1])
+    if k == "tvar":
         return t[1]
     if k == "list":
         return f"List {ty_atom(t[1])}"
@@ -1479,6 +1929,8 @@ def ty_lean(t):
         return ty_lean(t[1])          # `RwLock<T>` is transparent (PRELUDE2): a single owner is modelled
     if k == "tuple":
         return " × ".join(ty_atom(a) for a in t[1])
+    if t == HOLE:
+        return "_"       # not determined by the translator: left to Lean's elaborator (only below the top of a `let` type)
     raise Reject(f"type {ty_rust(t)} cannot be written in Lean (not determined)")
 
 
@@ -1503,12 +1955,43 @@ def ty_rust(t):
         return f"Vec<{ty_rust(t[1])}>"
     if k == "lock":
         return f"RwLock<{ty_rust(t[1])}>"
+    if k in MAPLIKE:
+        return ("HashMap" if k == "map" else "IndexMap") + f"<{ty_rust(t[1])}, {ty_rust(t[2])}>"
+    if k in ("bag", "seq"):
+        return f"impl Iterator<Item = {ty_rust(t[1])}>"
+    if k in ENTRYLIKE:
+        return {"entry": "Entry", "occ": "OccupiedEntry", "vac": "VacantEntry"}[k] + f"<{ty_rust(t[1])}, {ty_rust(t[2])}>"
+    if k == "enum" and len(t) == 3:
+        return t[1] + "<" + ", ".join(ty_rust(a) for a in t[2]) + ">"
     return t[1]
+
+
+def ty_children(t):
+    """the component types of a type constructor added for the map vocabulary / generic enums (None: not one of them)"""
+    if t[0] in MAPLIKE or t[0] in ENTRYLIKE:
+        return [t[1], t[2]]
+    if t[0] in ("bag", "seq"):
+        return [t[1]]
+    if t[0] == "enum" and len(t) == 3:
+        return list(t[2])
+    return None
+
+
+def ty_rebuild(t, cs):
+    if t[0] in MAPLIKE:
+        return (t[0], cs[0], cs[1])
+    if t[0] in ENTRYLIKE:
+        return (t[0], cs[0], cs[1], t[3])
+    if t[0] in ("bag", "seq"):
+        return (t[0], cs[0])
+    return ("enum", t[1], tuple(cs))
 
 
 def has_hole(t):
     if t in (HOLE, INTLIT):
         return True
+    if ty_children(t) is not None:
+        return any(has_hole(a) for a in ty_children(t))
     if t[0] in ("opt", "list", "lock"):
         return has_hole(t[1])
     if t[0] == "res":
@@ -1532,8 +2015,17 @@ def unify(a, b):
         return b if b in (NAT, INT) else None
     if b == INTLIT:
         return a if a in (NAT, INT) else None
+    if {a[0], b[0]} == {"bag", "seq"}:
+        u = unify(a[1], b[1])             # an ordered iterator where an unordered collection is expected: the order is forgotten
+        return ("bag", u) if u else None
     if a[0] != b[0]:
         return None
+    if ty_children(a) is not None:
+        ca, cb = ty_children(a), ty_children(b)
+        if cb is None or len(ca) != len(cb) or (a[0] == "enum" and a[1] != b[1]) or (a[0] in ENTRYLIKE and a[3] != b[3]):
+            return None
+        us = [unify(x, y) for x, y in zip(ca, cb)]
+        return ty_rebuild(a, us) if all(us) else None
     if a[0] in ("opt", "list", "lock"):
         u = unify(a[1], b[1])
         return (a[0], u) if u else None
@@ -1552,6 +2044,8 @@ def unify(a, b):
 def subst(t, m):
     if t[0] == "tvar":
         return m.get(t[1], t)
+    if ty_children(t) is not None:
+        return ty_rebuild(t, [subst(a, m) for a in ty_children(t)])
     if t[0] in ("opt", "list", "lock"):
         return (t[0], subst(t[1], m))
     if t[0] == "res":
@@ -1583,6 +2077,11 @@ def match_ty(pat, actual, m):
         return pat in (NAT, INT)
     if pat[0] != actual[0]:
         return False
+    if ty_children(pat) is not None:
+        cp, ca = ty_children(pat), ty_children(actual)
+        if ca is None or len(cp) != len(ca) or (pat[0] == "enum" and pat[1] != actual[1]) or (pat[0] in ENTRYLIKE and pat[3] != actual[3]):
+            return False
+        return all(match_ty(x, y, m) for x, y in zip(cp, ca))
     if pat[0] in ("opt", "list", "lock"):
         return match_ty(pat[1], actual[1], m)
     if pat[0] == "res":
@@ -1599,6 +2098,9 @@ def tvars_of(t, acc=None):
     if t[0] == "tvar":
         if t[1] not in acc:
             acc.append(t[1])
+    elif ty_children(t) is not None:
+        for a in ty_children(t):
+            tvars_of(a, acc)
     elif t[0] in ("opt", "list", "lock"):
         tvars_of(t[1], acc)
     elif t[0] == "res":
@@ -1624,21 +2126,33 @@ class Struct:
 
 
 class Enum:
-    def __init__(self, name, variants, dropped, rest=False):
+    def __init__(self, name, variants, dropped, rest=False, generics=()):
         self.name, self.variants, self.dropped = name, variants, dropped   # variants: [(v, shape, [(f, ty)])]
         self.rest = rest      # the dropped variants are represented by the one payload-free constructor `Other_`
+        self.generics = list(generics)
+        self.from_variants = set()    # one-field variants V(T) with `impl From<T> for Enum` (`#[from]` / `#[derive(From)]`)
 
-    def variant(self, v):
+    def variant(self, v, ty=None):
+        """the variant `v`; for a generic enum its field types are instantiated at the type arguments of `ty`"""
         for x in self.variants:
             if x[0] == v:
+                if self.generics and ty is not None and len(ty) == 3:
+                    m = dict(zip(self.generics, ty[2]))
+                    return (x[0], x[1], [(f, subst(t, m)) for f, t in x[2]])
                 return x
         return None
+
+    def ty(self, targs=None):
+        if not self.generics:
+            return ("enum", self.name)
+        return ("enum", self.name, tuple(targs) if targs is not None else tuple(HOLE for _ in self.generics))
 
 
 class Fn:
     def __init__(self, lean, mode, self_ty, params, ret, tvars=(), externs=()):
         self.lean, self.mode, self.self_ty, self.params, self.ret, self.tvars = lean, mode, self_ty, params, ret, list(tvars)
         self.externs = list(externs)      # names of the `extern` functions it takes as leading explicit parameters
+        self.mutparam = None              # index of its ONE `x: &mut T` parameter: the fn returns `T x R` (state passing on x)
 
     def instance(self, recv_ty, arg_tys, shown):
         """(param types, ret type) with the fn's type variables replaced by what the call site determines"""
@@ -1672,6 +2186,7 @@ class World:
         self.lean_names.add("Ordering")     # `std::cmp::Ordering`: defined in PRELUDE
         self.externs["decimal_sqrt"] = ([DEC], ("opt", DEC), "Rat → Option Rat")   # built in: `Decimal::sqrt` (MathematicalOps)
         self.externs["utc_now"] = ([], TIME, "Int")                                 # built in: the one reading of `Utc::now()`
+        self.conv_ops = {}        # externs of the form `T_into`: name -> (type parameter, target type); SUPPLIED by every caller
         self.tvar_ops = set()     # externs of the form `T_ord`: PartialOrd methods of a type PARAMETER (not passed on by callers)
         self.ctx = None           # Ctx of the table item being translated (groups / file / container)
         self.cache = {}           # rel -> (raw text, text with comments blanked)
@@ -1682,6 +2197,18 @@ class World:
         self.aux_names = set()    # Lean names of definitions that are NOT table items (auxiliary items, generic instances)
         self.aux_key = None       # key under which the most recent `fn` item was registered
         self.attr_groups = {}     # Lean name -> groups in whose simp set (`gen_<group>`) the definition is
+        self.aliases = {}         # type aliases `type N<P..> = T;`: name -> ([params], body tokens)
+        self.inhabited = {}       # struct / enum name -> does it have a (derived) `Inhabited` instance (ensure_inhabited)
+        self.accessors = {}       # (struct, method) -> parsed `&mut`-returning accessor found by lookup | None (user_lens)
+        self.opaque_generic = set()   # opaque identifier types whose type arguments are ignored
+
+    def alias_base(self, name):
+        """the struct a type alias stands for (`OrderRequestOpen` -> `OrderEvent`), followed through aliases; else the name"""
+        seen = set()
+        while name in self.aliases and name not in seen:
+            seen.add(name)
+            name = base_name(self.aliases[name][1]) or name
+        return name
 
     def source(self, rel):
         if rel not in self.cache:
@@ -1737,6 +2264,17 @@ class TypeResolver:
             return ts[0] if len(ts) == 1 else ("tuple", tuple(ts))
         if not re.fullmatch(r"[A-Za-z_]\w*", v):
             raise Reject(f"type starting with `{v}`")
+        if v == "impl" and self.t[self.i:self.i + 4] == ["Iterator", "<", "Item", "="]:
+            # `impl Iterator<Item = &T>` (`+ '_`): what `values()` yields, a collection without a meaningful order whose only
+            # accepted consumers are `all` / `any` (PRELUDE3: `Rust.Bag`)
+            self.i += 4
+            item = self.ty()
+            if self.t[self.i] != ">":
+                raise Reject("type `impl Iterator<..>`")
+            self.i += 1
+            if self.t[self.i:self.i + 3] == ["+", "'", "_"]:
+                self.i += 3
+            return ("bag", item)
         if v == "Self" and self.t[self.i] == "::" and self.t[self.i + 1] in self.assoc:
             # `Self::Name` with `type Name = ..;` in the same trait impl
             toks = self.assoc[self.t[self.i + 1]]
@@ -1756,9 +2294,11 @@ class TypeResolver:
                 elif self.t[self.i] != ">":
                     raise Reject(f"type arguments of `{v}`")
             self.i += 1
-        simple = {"u64": NAT, "i64": INT, "Decimal": DEC, "bool": BOOL, "TimeDelta": DELTA, "f64": F64}
+        simple = {"u64": NAT, "usize": NAT, "i64": INT, "Decimal": DEC, "bool": BOOL, "TimeDelta": DELTA, "f64": F64}
         if v in simple and not args:
             return simple[v]
+        if v == "String" and not args and self.w.ctx is not None and self.w.ctx.groups[0] in GROUPS3:
+            return STR
         if v == "DateTime" and len(args) == 1 and args[0] == ("enum", "Utc"):
             return TIME
         if v == "Utc" and not args:
@@ -1775,8 +2315,18 @@ class TypeResolver:
             return args[0]                 # shared ownership is transparent: clones aliasing one cell are not modelled
         if v == "RwLock" and len(args) == 1:
             return ("lock", args[0])
-        if v in self.w.opaque and not args:
-            return ("opaque", v)
+        if v in self.w.opaque and (not args or v in self.w.opaque_generic):
+            return ("opaque", v)          # type arguments of an opaque identifier type are ignored (option `generic`)
+        if v in ("HashMap", "FnvHashMap") and len(args) == 2:
+            return ("map", args[0], args[1])
+        if v in ("IndexMap", "FnvIndexMap") and len(args) == 2:
+            return ("imap", args[0], args[1])
+        if v in self.w.aliases:
+            params, body = self.w.aliases[v]
+            if len(args) != len(params):
+                raise Reject(f"type alias `{v}` with {len(args)} type arguments (every use must give all {len(params)})")
+            inner = TypeResolver(self.w, None, params).resolve(body)
+            return subst(inner, dict(zip(params, args)))
         if v == "Result" and len(args) == 2:
             return ("res", args[0], args[1])
         if v in self.tvars and not args:
@@ -1785,8 +2335,12 @@ class TypeResolver:
             if len(args) != len(self.w.structs[v].generics):
                 raise Reject(f"type `{v}` with {len(args)} type arguments")
             return ("struct", v, tuple(args))
-        if v in self.w.enums and not args:
+        if v in self.w.enums and not args and not self.w.enums[v].generics:
             return ("enum", v)
+        if v in self.w.enums and self.w.enums[v].generics:
+            if len(args) != len(self.w.enums[v].generics):
+                raise Reject(f"type `{v}` with {len(args)} type arguments")
+            return ("enum", v, tuple(args))
         raise Reject(f"type `{v}`" + ("<..>" if args else "") + " (not a translated type)")
 
 
@@ -1837,6 +2391,7 @@ class Compiler:
         self.used = set(idents) | {"self"}
         self.tr = resolver
         self.globs = []          # enums whose variants are in scope through `use Enum::*;`
+        self.into_bounds = {}    # type parameter -> target type of its `Into<..>` bound (cx_into)
         self.externs = []        # extern functions this definition needs (directly or through a callee), in order
 
     def fresh(self, base):
@@ -1859,7 +2414,7 @@ class Compiler:
             aux_translate(self.w, sname, mname)
         return self.w.fns.get(key)
 
-    def fname(self, fn):
+    def fname(self, fn, conv=None):
         """Lean head of a call of the translated fn: its name followed by the extern functions it is parameterised by"""
         ctx = self.w.ctx
         if ctx is not None and fn.lean in self.w.aux_names and not set(ctx.groups) <= self.w.attr_groups.get(fn.lean, set()):
@@ -1867,11 +2422,39 @@ class Compiler:
             new = [g for g in ctx.groups if g not in self.w.attr_groups.get(fn.lean, set())]
             self.w.pending.append("attribute [" + ", ".join("gen_" + g for g in new) + f"] {fn.lean}")
             self.w.attr_groups.setdefault(fn.lean, set()).update(new)
+        parts = [fn.lean]
         for x in fn.externs:
+            if x in self.w.conv_ops:
+                # the conversion `T -> U` of a bound `T: Into<U>`: supplied by the caller, who knows what `T` is (call_convs)
+                if not conv or x not in conv:
+                    raise Reject(f"call of `{fn.lean}`, whose conversion parameter `{x}` this call does not determine")
+                parts.append(conv[x])
+                continue
             if x in self.w.tvar_ops:
                 raise Reject(f"call of `{fn.lean}`, which is parameterised by the ordering of a type parameter (`{x}`)")
             self.need_extern(x)
-        return " ".join([fn.lean] + list(fn.externs))
+            parts.append(x)
+        return " ".join(parts)
+
+    def call_convs(self, fn, vs, recv_ty=None):
+        """the conversion functions a call supplies for the callee's `T: Into<U>` bounds: `T` is what the arguments say"""
+        if not any(x in self.w.conv_ops for x in fn.externs):
+            return None
+        m = {}
+        if recv_ty is not None and fn.self_ty is not None:
+            match_ty(fn.self_ty, recv_ty, m)
+        for (_, pt), v in zip(fn.params, vs):
+            match_ty(pt, v.ty, m)
+        out = {}
+        for x in fn.externs:
+            if x in self.w.conv_ops:
+                tv, tgt = self.w.conv_ops[x]
+                if tv not in m or m[tv] == HOLE:
+                    raise Reject(f"call of `{fn.lean}`: the type argument `{tv}` is not determined by the arguments")
+                f, _ = self.conversion(m[tv], tgt)
+                y = self.fresh("x")
+                out[x] = f"(fun {y} => {y})" if f is None else f"(fun {y} => {f} {y})"
+        return out
 
     @staticmethod
     def val(v):
@@ -1926,6 +2509,18 @@ class Compiler:
             return V("()", UNIT)
         if k == "panic":
             return V("Rust.unreachable", HOLE)
+        if k == "format":
+            # `format!(template, a, b)`: the list of the formatted values (PRELUDE3: the template text is not modelled)
+            parts = []
+            for a in e[1]:
+                v = self.cx(a, env, ind)
+                if v.ty == INTLIT:
+                    raise Reject("`format!` of an integer literal of unknown width")
+                kind = {"dec": "dec", "nat": "nat", "int": "int", "time": "int", "delta": "int", "opaque": "id", "idstr": "id"}.get(v.ty[0])
+                if kind is None:
+                    raise Reject(f"`format!` argument of type {ty_rust(v.ty)} (only Decimal / integers / times / identifier types)")
+                parts.append(f"Rust.FmtArg.{kind} {atom(self.val(v))}")
+            return V("(Rust.Str.mk [" + ", ".join(parts) + "])", STR)
         if k == "tuple":
             ex = expect[1] if expect and expect[0] == "tuple" and len(expect[1]) == len(e[1]) else [None] * len(e[1])
             vs = [self.cx(x, env, ind, t) for x, t in zip(e[1], ex)]
@@ -1975,6 +2570,8 @@ class Compiler:
             return V(f"(if {c} then\n{pad}  {self.val(a)}\n{pad}else\n{pad}  {self.val(b)})", u)
         if k == "match" and self.is_optmatch(e):
             return self.c_optmatch(e, env, None, ind, expect)
+        if k == "match" and self.is_gmatch(e):
+            return self.c_gmatch(e, env, None, ind, expect)
         if k == "match" and self.is_chain(e):
             conds = self.chain_of(e, env, ind)
             pad = "  " * ind
@@ -2035,7 +2632,7 @@ class Compiler:
                 raise Reject("statement other than `let x = ..;` inside a block used as a value")
             ann = self.tr.resolve(st[2]) if st[2] else None
             v = self.cx(st[3], env, ind + 1, ann)
-            if has_hole(v.ty):
+            if self.undet(v.ty):
                 raise Reject(f"type of `let {st[1][1]}` is not determined")
             lean, env = self.bind(st[1][1], v.ty, st[1][2], env)
             lines.append(f"let {lean} : {ty_lean(v.ty)} := {self.val(v)}")
@@ -2077,7 +2674,7 @@ class Compiler:
                 raise Reject(f"enum `{head}` has no translated variant `{last}`")
             if var[1] != "unit":
                 raise Reject(f"variant `{head}::{last}` used without its payload")
-            return V(f"{head}.{last}", ("enum", head))
+            return V(f"{head}.{last}", self.w.enums[head].ty())
         raise Reject(f"path `{'::'.join(segs)}`")
 
     def lookup_fn(self, segs):
@@ -2087,9 +2684,46 @@ class Compiler:
             cont = self.self_ty[1] if self.self_ty else None
         return (cont, name)
 
+    def resolve_call(self, segs):
+        """the translated fn a path call `f(..)` / `m::f(..)` / `Type::f(..)` names (looked up in the source if it is not in the
+        item table, like cx_call does); None if it is not a translated fn without type parameters of its own"""
+        if len(segs) == 1 and (segs[0] in ("Some", "Ok", "Err", "drop") or segs[0][0].isupper()):
+            return None
+        if len(segs) >= 2 and (segs[-2] in ("Decimal", "TimeDelta", "Arc", "RwLock", "Utc", "Vec", "HashMap", "FnvHashMap")
+                               or segs[-2] in self.w.enums or segs[-2] in self.w.opaque or segs[-2] in self.w.aliases):
+            return None
+        key = self.lookup_fn(segs)
+        if key in self.w.fns:
+            return self.w.fns[key]
+        if key in self.w.generic_fns or key in self.w.failed or (key[1] in self.w.externs and len(segs) == 1):
+            return None
+        ctx = self.w.ctx
+        sibling = (ctx.container.split()[1], key[1]) if key[0] is None and ctx and ctx.container and ctx.container.startswith("mod ") else None
+        if sibling is not None and (sibling in self.w.fns or sibling in self.w.generic_fns):
+            return self.w.fns.get(sibling)
+        if ctx is None or ctx.groups[0] not in GROUPS3:
+            return None          # (the first two files: no `&mut` parameters; nothing is looked up ahead of cx_call)
+        try:
+            key = aux_translate(self.w, key[0], key[1]) or key
+        except Reject:
+            return None          # cx_call reports it
+        return self.w.fns.get(key)
+
     def cx_call(self, segs, args, env, ind, expect):
         shown = "::".join(segs)
+        if len(segs) >= 2 and segs[-2] in self.w.aliases and self.w.alias_base(segs[-2]) in self.w.enums:
+            # `Alias::Variant(..)`: the alias says which enum and (if it has no parameters of its own) at which type arguments
+            if expect is None and not self.w.aliases[segs[-2]][0]:
+                expect = TypeResolver(self.w, None, ()).resolve([segs[-2]])
+            segs = segs[:-2] + [self.w.alias_base(segs[-2]), segs[-1]]
         name = segs[-1]
+        opq = name if len(segs) == 1 else segs[-2] if name == "new" else None
+        if opq in self.w.opaque and opq not in self.w.opaque_generic and len(args) == 1:
+            # `Id(text)` / `Id::new(text)` of an opaque identifier type: the text of an identifier is kept as its number
+            a = self.cx(args[0], env, ind)
+            if a.ty != IDSTR and a.ty[0] != "opaque":
+                raise Reject(f"`{shown}(..)` of a value of type {ty_rust(a.ty)} (only the text of another identifier / `n.to_smolstr()`)")
+            return V(a.text, ("opaque", opq))
         if len(segs) == 1 and name in ("Some", "Ok", "Err"):
             if len(args) != 1:
                 raise Reject(f"`{name}` with {len(args)} arguments")
@@ -2142,6 +2776,8 @@ class Compiler:
             a = self.cx(args[0], env, ind, F64)
             self.need_extern("from_f64")
             return V(f"(from_f64 {atom(a.text)})", ("opt", DEC))
+        if len(segs) >= 2 and segs[-2] in ("HashMap", "FnvHashMap") and segs[-1] in ("default", "new") and not args:
+            return V("Rust.Map.empty", ("map", HOLE, HOLE))
         if segs[-2:] in (["Vec", "new"], ["Vec", "with_capacity"]):
             if segs[-1] == "with_capacity":
                 if len(args) != 1:
@@ -2157,10 +2793,26 @@ class Compiler:
                 raise Reject(f"`{shown}(..)`: `{st.name}` is not a tuple struct")
             if st.dropped:
                 raise Reject(f"construction of `{st.name}`, whose fields are only partly translated")
-            if len(args) != len(st.fields) or st.generics:
+            if len(args) != len(st.fields):
                 raise Reject(f"`{shown}(..)` with {len(args)} arguments")
-            vs = [self.cx(a, env, ind, t) for a, (_, t) in zip(args, st.fields)]
-            return V("(" + " ".join([f"{st.name}.mk"] + [atom(self.val(v)) for v in vs]) + ")", ("struct", st.name, ()))
+            if not st.generics:
+                vs = [self.cx(a, env, ind, t) for a, (_, t) in zip(args, st.fields)]
+                return V("(" + " ".join([f"{st.name}.mk"] + [atom(self.val(v)) for v in vs]) + ")", ("struct", st.name, ()))
+            # a generic tuple struct: type arguments from `Self` / the expected type, the rest from the arguments
+            if targs is None and expect and expect[0] == "struct" and expect[1] == st.name:
+                targs = expect[2]
+            tmap = {g: a for g, a in zip(st.generics, targs or ()) if not has_hole(a)}
+            vs = []
+            for a, (f, t) in zip(args, st.fields):
+                known = all(x in tmap for x in tvars_of(t))
+                v = self.cx(a, env, ind, subst(t, tmap) if known else None)
+                if not known and not match_ty(t, v.ty, tmap):
+                    raise Reject(f"field `{f}` of `{st.name}` given a value of type {ty_rust(v.ty)}")
+                vs.append(v)
+            ty = ("struct", st.name, tuple(tmap.get(g, HOLE) for g in st.generics))
+            if has_hole(ty):
+                raise Reject(f"type arguments of `{st.name}` are not determined by the constructor call")
+            return V("(" + " ".join([f"{st.name}.mk"] + [atom(self.val(v)) for v in vs]) + f" : {ty_lean(ty)})", ty)
         if len(segs) >= 2 and (segs[-2] in self.w.enums or segs[-2] == "Self" and self.self_ty and self.self_ty[0] == "enum"):
             en = self.w.enums[segs[-2] if segs[-2] != "Self" else self.self_ty[1]]
             var = en.variant(name)
@@ -2168,8 +2820,8 @@ class Compiler:
                 raise Reject(f"`{shown}(..)`: no translated tuple variant `{name}` of `{en.name}`" + self.dropped_note(en, name))
             if len(args) != len(var[2]):
                 raise Reject(f"`{shown}(..)` with {len(args)} arguments")
-            vs = [self.cx(a, env, ind, t) for a, (_, t) in zip(args, var[2])]
-            return V("(" + " ".join([f"{en.name}.{name}"] + [atom(self.val(v)) for v in vs]) + ")", ("enum", en.name))
+            vs, ety = self.enum_fields(en, args, var[2], env, ind, expect)
+            return V("(" + " ".join([f"{en.name}.{name}"] + [atom(self.val(v)) for v in vs]) + ")", ety)
         key = self.lookup_fn(segs)
         known = lambda k: k in self.w.generic_fns or k in self.w.fns
         if not known(key) and not (key[1] in self.w.externs and len(segs) == 1) and key not in self.w.failed:
@@ -2186,8 +2838,11 @@ class Compiler:
             fn = self.w.fns[key]
             if fn.mode != "none":
                 raise Reject(f"method `{shown}` called through a path")
+            if fn.mutparam is not None:
+                raise Reject(f"call of `{shown}`, which has a `&mut` parameter, inside a larger expression (accepted only as a whole "
+                             "statement / initialiser / tail / `match` scrutinee)")
             vs, ret = self.call_args(fn, None, args, env, ind, shown, expect)
-            return V("(" + " ".join([self.fname(fn)] + [atom(self.val(v)) for v in vs]) + ")", ret)
+            return V("(" + " ".join([self.fname(fn, self.call_convs(fn, vs))] + [atom(self.val(v)) for v in vs]) + ")", ret)
         elif key[1] in self.w.externs and len(segs) == 1:
             ptys, ret, _ = self.w.externs[name]
             if len(args) != len(ptys):
@@ -2200,6 +2855,23 @@ class Compiler:
         else:
             raise Reject(f"call of `{shown}`, which is not a translated function" + (" (it was rejected above)" if key in self.w.failed else ""))
         return V("(" + " ".join([self.fname(fn)] + [atom(self.val(v)) for v in vs]) + ")", fn.ret)
+
+    def enum_fields(self, en, exprs, fields, env, ind, expect):
+        """compiled payload of a variant constructor and the enum type; the type arguments of a GENERIC enum come from the
+        expected type, the rest from the payload (what neither determines stays a hole for the context to fill)"""
+        if not en.generics:
+            return [self.cx(a, env, ind, t) for a, (_, t) in zip(exprs, fields)], ("enum", en.name)
+        tmap = {}
+        if expect and expect[0] == "enum" and expect[1] == en.name and len(expect) == 3:
+            tmap = {g: a for g, a in zip(en.generics, expect[2]) if not has_hole(a)}
+        vs = []
+        for a, (f, t) in zip(exprs, fields):
+            known = all(x in tmap for x in tvars_of(t))
+            v = self.cx(a, env, ind, subst(t, tmap) if known else None)
+            if not known and not match_ty(t, v.ty, tmap):
+                raise Reject(f"payload of a variant of `{en.name}` given a value of type {ty_rust(v.ty)}")
+            vs.append(v)
+        return vs, ("enum", en.name, tuple(tmap.get(g, HOLE) for g in en.generics))
 
     def call_args(self, fn, recv_ty, args, env, ind, shown, expect=None):
         """compiled arguments and the result type of a call of a translated fn (type variables of the callee are
@@ -2266,7 +2938,7 @@ class Compiler:
                     raise Reject(f"field `{f}` of `{st.name}` given a value of type {ty_rust(v.ty)}")
                 vals.append(f"{lean_id(f)} := {self.val(v)}")
             ty = ("struct", st.name, tuple(tmap.get(g, HOLE) for g in st.generics))
-            if has_hole(ty):
+            if self.undet(ty) or any(a == HOLE for a in ty[2]):
                 raise Reject(f"type arguments of `{st.name}` are not determined by the literal")
             return V("{ " + ", ".join(vals) + f" : {ty_lean(ty)} }}", ty)
         if len(segs) >= 2:
@@ -2278,8 +2950,8 @@ class Compiler:
                     raise Reject(f"`{shown} {{..}}`: no translated struct variant `{segs[-1]}` of `{ename}`" + self.dropped_note(en, segs[-1]))
                 if set(given) != {f for f, _ in var[2]}:
                     raise Reject(f"`{shown} {{..}}` does not give exactly the variant's fields")
-                vs = [self.cx(given[f], env, ind, t) for f, t in var[2]]
-                return V("(" + " ".join([f"{ename}.{segs[-1]}"] + [atom(self.val(v)) for v in vs]) + ")", ("enum", ename))
+                vs, ety = self.enum_fields(en, [given[f] for f, _ in var[2]], var[2], env, ind, expect)
+                return V("(" + " ".join([f"{ename}.{segs[-1]}"] + [atom(self.val(v)) for v in vs]) + ")", ety)
         raise Reject(f"struct literal `{shown} {{..}}` of a type that is not translated")
 
     def cx_field(self, e, env, ind):
@@ -2287,6 +2959,10 @@ class Compiler:
         f = e[2]
         if r.ty[0] == "tuple" and f.isdigit() and int(f) < len(r.ty[1]):
             return V(f"{atom(r.text)}.{int(f) + 1}", r.ty[1][int(f)])
+        if r.ty[0] == "opaque" and f == "0" and r.ty[1] not in self.w.opaque_generic:
+            return V(r.text, IDSTR)          # the text of an identifier (a newtype over `SmolStr`)
+        if r.ty[0] in ("occ", "vac") and (f == "key" or (f == "value" and r.ty[0] == "occ")):
+            return V(f"{atom(r.text)}.{f}", r.ty[1] if f == "key" else r.ty[2])      # internal: `e.key()` / `e.get()` (PRELUDE3)
         if r.ty[0] != "struct":
             raise Reject(f"field access `.{f}` on a value of type {ty_rust(r.ty)}")
         st = self.w.structs[r.ty[1]]
@@ -2305,7 +2981,9 @@ class Compiler:
         _, recv, name, args = e
         r = self.cx(recv, env, ind)
         t = r.ty
-        if t[0] == "struct" and self.method_fn(t[1], name) is not None:
+        if t[0] in MAPLIKE or t[0] in ENTRYLIKE or t[0] == "bag":
+            return self.cx_map_call(e, r, env, ind, expect)
+        if t[0] in ("struct", "enum") and self.method_fn(t[1], name) is not None:
             fn = self.w.fns[(t[1], name)]
             if fn.mode == "mut":
                 raise Reject(f"call of the `&mut self` method `.{name}(..)` inside a larger expression (accepted only as a whole statement / initialiser / tail)")
@@ -2313,8 +2991,10 @@ class Compiler:
                 raise Reject(f"`.{name}(..)`: `{t[1]}::{name}` takes no `self`")
             vs, ret = self.call_args(fn, t, args, env, ind, f".{name}(..)", expect)
             return V("(" + " ".join([self.fname(fn), atom(r.text)] + [atom(self.val(v)) for v in vs]) + ")", ret)
-        if t[0] == "struct" and (t[1], name) in self.w.failed:
+        if t[0] in ("struct", "enum") and (t[1], name) in self.w.failed:
             raise Reject(f"call of `{t[1]}::{name}`, which was rejected above")
+        if t[0] == "tvar" and name == "into" and not args:
+            return self.cx_into(r, expect)
         if t[0] == "tvar" and not (name == "clone" and not args):
             cands = [tn for tn, ms in self.w.traits.items() if name in ms]
             if len(cands) != 1:
@@ -2357,6 +3037,26 @@ class Compiler:
             return V(f"(if {r.text} ≥ {a.text} then {r.text} else {a.text})", DELTA)
         if name == "clone" and not args:
             return r
+        if name == "into" and not args:
+            return self.cx_into(r, expect)
+        if t == TIME and name == "checked_add_signed" and len(args) == 1:
+            a = self.cx(args[0], env, ind, DELTA)      # never `None`: overflow is not modelled (as for `checked_add`)
+            return V(f"(some ({r.text} + {a.text}))", ("opt", TIME))
+        if t == NAT and name == "to_smolstr" and not args:
+            return V(r.text, IDSTR)       # the decimal text of a u64: an injective coding, kept as the number
+        if t[0] == "list" and name == "iter" and not args:
+            return V(r.text, ("seq", t[1]))
+        if t[0] == "seq" and name == "filter" and len(args) == 1:
+            c = args[0]
+            if c[0] != "closure" or not isinstance(c[1], str) or has_hole(t[1]):
+                raise Reject("`.filter(..)` with an argument that is not a closure `|x| ..`")
+            x, env2 = self.bind(c[1], t[1], False, env)
+            b = self.cx(c[2], env2, ind, BOOL)
+            return V(f"(List.filter (fun {x} => {self.val(b)}) {atom(r.text)})", t)
+        if t[0] == "seq" and name in ("cloned", "copied") and not args:
+            return r
+        if t[0] == "seq" and name == "collect" and not args:
+            return V(r.text, ("list", t[1]))
         if t == DEC and name == "abs" and not args:
             return V(f"(Decimal.abs {atom(r.text)})", DEC)
         if t == DEC and name == "is_zero" and not args:
@@ -2376,7 +3076,12 @@ class Compiler:
             return r                      # `&Option<T>` -> `Option<&T>`: references are values
         if t[0] == "opt" and name in ("is_none_or", "is_some_and", "map") and len(args) == 1:
             c = args[0]
-            if c[0] != "closure" or c[1] is None:
+            if name == "map" and c[0] == "closure" and isinstance(c[1], tuple) and not has_hole(t[1]):
+                # `opt.map(|(a, b)| e)` on an Option of a tuple
+                pt, env2 = self.cpat(c[1], t[1], env)
+                b = self.cx(c[2], env2, ind, expect[1] if expect and expect[0] == "opt" else None)
+                return V(f"(match {r.text} with | none => none | some {atom(pt)} => some {atom(self.val(b))})", ("opt", b.ty))
+            if c[0] != "closure" or c[1] is None or not isinstance(c[1], str):
                 raise Reject(f"`.{name}(..)` with an argument that is not a closure `|x| ..`")
             if has_hole(t[1]):
                 raise Reject(f"`.{name}(..)` on an Option of undetermined type")
@@ -2395,11 +3100,43 @@ class Compiler:
             a = self.cx(args[0], env, ind, t[1] if not has_hole(t[1]) else None)
             x = self.fresh("some")
             return V(f"(match {r.text} with | some {x} => {x} | none => {self.val(a)})", a.ty)
+        if t[0] == "opt" and name in ("cloned", "copied") and not args:
+            return r                      # `Option<&T>` -> `Option<T>`: references are values
+        if t[0] == "opt" and name == "filter" and len(args) == 1:
+            c = args[0]
+            if c[0] != "closure" or not isinstance(c[1], str):
+                raise Reject("`.filter(..)` with an argument that is not a closure `|x| ..`")
+            if has_hole(t[1]):
+                raise Reject("`.filter(..)` on an Option of undetermined type")
+            x, env2 = self.bind(c[1], t[1], False, env)
+            b = self.cx(c[2], env2, ind, BOOL)
+            return V(f"(match {r.text} with | none => none | some {x} => if {self.prop(b)} then some {x} else none)", t)
+        if t[0] == "opt" and name == "unwrap_or_else" and len(args) == 1:
+            c = args[0]
+            if c[0] != "closure" or c[1] is not None:
+                raise Reject("`.unwrap_or_else(..)` with an argument that is not a closure `|| ..`")
+            a = self.cx(c[2], env, ind, t[1] if not has_hole(t[1]) else None)
+            if a.ty == HOLE and not has_hole(t[1]):
+                a.ty = t[1]
+            if c[2][0] == "panic":         # `|| panic!(..)`
+                self.inhabit(a.ty)
+            x = self.fresh("some")
+            return V(f"(match {r.text} with | some {x} => {x} | none => {self.val(a)})", a.ty)
+        if t[0] == "opt" and name in ("ok_or", "ok_or_else") and len(args) == 1:
+            c = args[0]
+            if name == "ok_or_else":
+                if c[0] != "closure" or c[1] is not None:
+                    raise Reject("`.ok_or_else(..)` with an argument that is not a closure `|| ..`")
+                c = c[2]
+            a = self.cx(c, env, ind, expect[2] if expect and expect[0] == "res" else None)
+            x = self.fresh("some")
+            return V(f"(match {r.text} with | some {x} => Except.ok {x} | none => Except.error {atom(self.val(a))})", ("res", t[1], a.ty))
         if t[0] == "opt" and name == "replace":
             raise Reject("`.replace(..)` inside a larger expression (accepted only as a whole statement on a field of `&mut self`)")
         if t[0] == "opt" and name in ("expect", "unwrap") and not args:
             if has_hole(t[1]):
                 raise Reject(f"`.{name}()` on an Option of undetermined type")
+            self.inhabit(t[1])
             x = self.fresh("some")
             return V(f"(match {r.text} with | some {x} => {x} | none => Rust.unreachable)", t[1])
         if t == DEC and name == "is_sign_negative" and not args:
@@ -2413,6 +3150,104 @@ class Compiler:
             return V(r.text, INT)
         raise Reject(f"method call `.{name}(..)` on a value of type {ty_rust(t)}")
 
+    def conversion(self, src, dst):
+        """`From<src> for dst` as (Lean function text | None for the identity, the target type): the blanket `From<T> for T`, or
+        the ONE one-field variant `V(src)` of the enum `dst` that carries `#[from]` / whose enum derives `From`"""
+        u = unify(src, dst)
+        if u is not None:
+            return None, u
+        if dst[0] == "enum":
+            en = self.w.enums[dst[1]]
+            hits = []
+            for v in sorted(en.from_variants):
+                var = en.variant(v, dst if len(dst) == 3 else None)
+                fu = unify(subst(var[2][0][1], {g: HOLE for g in en.generics}) if len(dst) != 3 else var[2][0][1], src)
+                if fu is not None:
+                    hits.append((v, fu))
+            if len(hits) == 1:
+                return f"{en.name}.{hits[0][0]}", dst
+        raise Reject(f"`.into()` from {ty_rust(src)} into {ty_rust(dst)}: no `From` conversion in the translated vocabulary "
+                     "(the identity, or ONE one-field enum variant with `#[from]` / `#[derive(From)]`)")
+
+    def cx_into(self, r, expect):
+        t = r.ty
+        if t[0] == "tvar":
+            # a value of a type parameter `T` with the bound `T: Into<U>`: the explicit conversion parameter `T_into`
+            tgt = self.into_bounds.get(t[1])
+            if tgt is None:
+                raise Reject(f"`.into()` on a value of the type parameter `{t[1]}`, which has no `{t[1]}: Into<..>` bound")
+            x = f"{t[1]}_into"
+            self.w.externs[x] = ([t], tgt, f"{t[1]} → {ty_lean(tgt)}")
+            self.w.conv_ops[x] = (t[1], tgt)
+            self.need_extern(x)
+            return V(f"({x} {atom(r.text)})", tgt)
+        if expect is None or expect == HOLE:
+            raise Reject("`.into()` whose target type is not determined by its context")
+        f, ty = self.conversion(t, expect)
+        return V(r.text if f is None else f"({f} {atom(r.text)})", ty, r.prop if f is None else False)
+
+    def cx_map_call(self, e, r, env, ind, expect):
+        """the PURE part of the map vocabulary (PRELUDE3) on `HashMap` / `IndexMap` / entries / `values()`"""
+        _, recv, name, args = e
+        t = r.ty
+        ns = "Rust.Map" if t[0] == "map" else "Rust.IndexMap"
+        if t[0] in MAPLIKE and name in ("get", "contains_key") and len(args) == 1:
+            kx = self.cx(args[0], env, ind, t[1] if not has_hole(t[1]) else None)
+            if name == "get":
+                return V(f"({ns}.get {atom(r.text)} {atom(self.val(kx))})", ("opt", t[2]))
+            return V(f"((Rust.Map.get {atom(r.text)} {atom(self.val(kx))}).isSome)", BOOL)
+        if t[0] in MAPLIKE and name == "len" and not args:
+            return V(f"({ns}.len {atom(r.text)})", NAT)
+        if t[0] in MAPLIKE and name == "is_empty" and not args:
+            return V(f"({ns}.len {atom(r.text)} = 0)", BOOL, True)
+        if t[0] == "imap" and name == "get_index" and len(args) == 1:
+            i = self.cx(args[0], env, ind, NAT)
+            if i.ty == INTLIT:
+                i.ty = NAT
+            if i.ty != NAT:
+                raise Reject(f"`.get_index(..)` with an index of type {ty_rust(i.ty)}")
+            return V(f"(Rust.IndexMap.get_index {atom(r.text)} {atom(self.val(i))})", ("opt", ("tuple", (t[1], t[2]))))
+        if t[0] in MAPLIKE and name == "values" and not args:
+            return V(f"({ns}.values {atom(r.text)})", ("bag", t[2]))
+        if t[0] == "bag" and name in ("all", "any") and len(args) == 1:
+            if has_hole(t[1]):
+                raise Reject(f"`.{name}(..)` on values of undetermined type")
+            c = args[0]
+            x = self.fresh("x")
+            if c[0] == "closure" and isinstance(c[1], str):
+                x, env2 = self.bind(c[1], t[1], False, env)
+                b = self.cx(c[2], env2, ind, BOOL)
+                body = self.val(b)
+            elif c[0] == "path" and len(c[1]) >= 2:
+                # a method path `Type::method` as the predicate
+                b = self.cx(("mcall", ("lean", x, t[1]), c[1][-1], []), env, ind, BOOL)
+                if t[1][0] not in ("struct", "enum") or c[1][-2] not in (t[1][1], "Self"):
+                    raise Reject(f"`.{name}({'::'.join(c[1])})` on values of type {ty_rust(t[1])}")
+                body = self.val(b)
+            else:
+                raise Reject(f"`.{name}(..)` with an argument that is neither a closure `|x| ..` nor a method path `Type::method`")
+            return V(f"(List.{name} {atom(r.text)} (fun {x} => {body}))", BOOL)
+        if t[0] == "map" and name == "entry" and len(args) == 1:
+            lv = self.lvalue(recv, env)
+            if not lv or not env[lv[0]].mut or env[lv[0]].alias:
+                raise Reject("`.entry(..)` on something that is not a field path of a mutable variable")
+            kx = self.cx(args[0], env, ind, t[1] if not has_hole(t[1]) else None)
+            return V(f"(Rust.Map.entry {atom(r.text)} {atom(self.val(kx))})", ("entry", t[1], t[2], (lv[0], tuple(lv[1]))))
+        if t[0] == "occ" and name in ("get", "get_mut") and not args:
+            return V(f"{atom(r.text)}.value", t[2])
+        if t[0] in ("occ", "vac") and name == "key" and not args:
+            return V(f"{atom(r.text)}.key", t[1])
+        if t[0] in MAPLIKE and name in ("get_mut", "get_index_mut"):
+            raise Reject(f"`.{name}(..)` outside the accepted forms (`let Some(x) = m.{name}(k) else {{ .. }};`, `if let Some(x) = m.{name}(k)`, "
+                         f"`let x = m.{name}(k).expect(..);`, `m.{name}(k).unwrap().f = e;`: see PRELUDE3)")
+        if (t[0] in MAPLIKE and name in ("insert", "remove")) or (t[0] in ("occ", "vac") and name in ("insert", "remove")):
+            raise Reject(f"`.{name}(..)` on a map / entry inside a larger expression (accepted only as a whole statement / initialiser / "
+                         "`if let` scrutinee on a field path of a mutable variable)")
+        if t[0] in MAPLIKE and name in ("iter", "iter_mut", "keys", "into_iter", "drain", "retain", "extend", "values_mut", "into_values", "into_keys"):
+            raise Reject(f"`.{name}(..)` on a map: iteration whose order could be observed is not in the vocabulary "
+                         "(accepted: `values().all(p)` / `.any(p)`, `for x in m.values_mut() {{ x.f = e; }}`)")
+        raise Reject(f"method call `.{name}(..)` on a value of type {ty_rust(t)} (not in the map vocabulary)")
+
     def arith(self, op, a, b, expect=None):
         u = unify(a.ty, b.ty)
         if u is None or u not in ARITH:
@@ -2421,6 +3256,9 @@ class Compiler:
             u = expect
         if op == "%":
             raise Reject("`%` operator")
+        if u in (NAT, INTLIT) and op == "/" and re.fullmatch(r"\d+", b.text) and int(b.text) != 0 \
+                and self.w.ctx is not None and self.w.ctx.groups[0] in GROUPS3:
+            return V(f"({a.text} / {b.text})", NAT)      # u64 division by a non-zero literal: `Nat` division (truncating, no panic)
         if u in (NAT, INTLIT) and op in ("-", "/"):
             raise Reject(f"`{op}` on u64 values (underflow / truncation is not modelled)")
         if u in (INT, DELTA) and op == "/":
@@ -2457,9 +3295,115 @@ class Compiler:
 
     # ---- patterns
     def irrefutable(self, p):
+        def is_struct(n):
+            return n in self.w.structs or self.w.alias_base(n) in self.w.structs
         return p[0] in ("pbind", "pwild") or (p[0] == "ptuple" and all(self.irrefutable(q) for q in p[1])) or \
-            (p[0] == "pctor" and len(p[1]) == 1 and p[1][0] in self.w.structs and all(self.irrefutable(q) for q in p[2])) or \
-            (p[0] == "pstruct" and len(p[1]) == 1 and p[1][0] in self.w.structs and all(self.irrefutable(q) for _, q in p[2]))
+            (p[0] == "pctor" and len(p[1]) == 1 and is_struct(p[1][0]) and all(self.irrefutable(q) for q in p[2])) or \
+            (p[0] == "pstruct" and len(p[1]) == 1 and is_struct(p[1][0]) and all(self.irrefutable(q) for _, q in p[2]))
+
+    def expand_or(self, p):
+        """the or-free patterns a pattern with nested or-patterns `(A | B, c)` stands for, in source order: `(A, c)`, `(B, c)`"""
+        k = p[0]
+        if k == "por":
+            return [r for q in p[1] for r in self.expand_or(q)]
+        if k == "ptuple":
+            outs = [[]]
+            for q in p[1]:
+                outs = [o + [r] for o in outs for r in self.expand_or(q)]
+            return [("ptuple", o) for o in outs]
+        if k == "pctor":
+            outs = [[]]
+            for q in p[2]:
+                outs = [o + [r] for o in outs for r in self.expand_or(q)]
+            return [("pctor", p[1], o) for o in outs]
+        if k == "pstruct":
+            outs = [[]]
+            for f, q in p[2]:
+                outs = [o + [(f, r)] for o in outs for r in self.expand_or(q)]
+            return [("pstruct", p[1], o, p[3]) for o in outs]
+        return [p]
+
+    def binders_of(self, p):
+        return sorted(q[1] for q in self.subpatterns(p) if q[0] == "pbind")
+
+    # ---- usefulness of patterns (Maranget): which Lean alternatives are reachable / whether a `match` is exhaustive
+    def ctor_sig(self, ty):
+        """the constructors of a type as {name: [field types]}; None for a type with infinitely many values"""
+        k = ty[0]
+        if ty == BOOL:
+            return {"true": [], "false": []}
+        if k == "opt":
+            return {"none": [], "some": [ty[1]]}
+        if k == "res":
+            return {"ok": [ty[1]], "error": [ty[2]]}
+        if k == "tuple":
+            return {"tuple": list(ty[1])}
+        if k == "struct":
+            st = self.w.structs[ty[1]]
+            return {"mk": [st.field(f, ty[2]) for f, _ in st.fields]}
+        if k == "enum":
+            en = self.w.enums[ty[1]]
+            if en.dropped and not en.rest:
+                return None
+            return {v[0]: [t for _, t in en.variant(v[0], ty)[2]] for v in en.variants}
+        if k == "entry":
+            return {"Occupied": [("occ",) + ty[1:]], "Vacant": [("vac",) + ty[1:]]}
+        return None
+
+    def npat(self, p, ty):
+        """normal form of an or-free pattern for the usefulness check: ("w",) | ("c", constructor, [sub-patterns])"""
+        k = p[0]
+        if k in ("pwild", "pbind"):
+            return ("w",)
+        if k == "pbool":
+            return ("c", p[1], [])
+        if k == "ptuple" and ty[0] == "tuple" and len(ty[1]) == len(p[1]):
+            return ("c", "tuple", [self.npat(q, t) for q, t in zip(p[1], ty[1])])
+        if k == "pctor" and p[1] == ["Some"] and ty[0] == "opt" and len(p[2]) == 1:
+            return ("c", "some", [self.npat(p[2][0], ty[1])])
+        if k == "ppath" and p[1] == ["None"] and ty[0] == "opt":
+            return ("c", "none", [])
+        if k == "pctor" and p[1] in (["Ok"], ["Err"]) and ty[0] == "res" and len(p[2]) == 1:
+            return ("c", "ok" if p[1] == ["Ok"] else "error", [self.npat(p[2][0], ty[1] if p[1] == ["Ok"] else ty[2])])
+        if k == "pctor" and ty[0] == "entry" and p[1][-1] in ("Occupied", "Vacant") and len(p[2]) == 1:
+            return ("c", p[1][-1], [self.npat(p[2][0], self.ctor_sig(ty)[p[1][-1]][0])])
+        if k in ("pctor", "pstruct") and ty[0] == "struct":
+            st = self.w.structs[ty[1]]
+            sub = dict(zip((f for f, _ in st.fields), p[2])) if k == "pctor" else dict(p[2])
+            return ("c", "mk", [self.npat(sub[f], st.field(f, ty[2])) if f in sub else ("w",) for f, _ in st.fields])
+        if k in ("pctor", "pstruct", "ppath") and ty[0] == "enum":
+            en = self.w.enums[ty[1]]
+            var = en.variant(p[1][-1], ty)
+            if var is None:
+                raise Reject(f"pattern `{'::'.join(p[1])}`: no translated variant")
+            if k == "ppath":
+                return ("c", var[0], [])
+            sub = dict(zip((f for f, _ in var[2]), p[2])) if k == "pctor" else dict(p[2])
+            return ("c", var[0], [self.npat(sub[f], t) if f in sub else ("w",) for f, t in var[2]])
+        raise Reject(f"pattern `{k}` on a value of type {ty_rust(ty)}")
+
+    def useful(self, rows, vec, tys):
+        """is there a value matched by the pattern vector `vec` and by none of `rows`?"""
+        if not vec:
+            return not rows
+        head, ty = vec[0], tys[0]
+        sig = self.ctor_sig(ty)
+
+        def specialise(c, arity):
+            out = []
+            for r in rows:
+                if r[0][0] == "w":
+                    out.append([("w",)] * arity + r[1:])
+                elif r[0][1] == c:
+                    out.append(list(r[0][2]) + r[1:])
+            return out
+        if head[0] == "c":
+            ftys = sig[head[1]] if sig else []
+            return self.useful(specialise(head[1], len(head[2])), list(head[2]) + vec[1:], list(ftys) + tys[1:])
+        used = {r[0][1] for r in rows if r[0][0] == "c"}
+        if sig is not None and used >= set(sig):
+            return any(self.useful(specialise(c, len(ft)), [("w",)] * len(ft) + vec[1:], list(ft) + tys[1:]) for c, ft in sig.items())
+        return self.useful([r[1:] for r in rows if r[0][0] == "w"], vec[1:], tys[1:])
 
     def cpat(self, p, ty, env):
         """(Lean pattern, env extended by the binders)"""
@@ -2490,7 +3434,19 @@ class Compiler:
             if ty[0] != "opt":
                 raise Reject(f"pattern `None` on a value of type {ty_rust(ty)}")
             return "none", env
-        if k in ("pctor", "pstruct") and ty[0] == "struct" and p[1][-1] in (ty[1], "Self"):
+        if k == "por":
+            raise Reject("or-pattern `p | q` in this position")
+        if k == "pctor" and p[1] in (["Ok"], ["Err"]):
+            if ty[0] != "res" or len(p[2]) != 1:
+                raise Reject(f"pattern `{p[1][0]}(..)` on a value of type {ty_rust(ty)}")
+            s, env = self.cpat(p[2][0], ty[1] if p[1] == ["Ok"] else ty[2], env)
+            return f"Except.{'ok' if p[1] == ['Ok'] else 'error'} {atom(s)}", env
+        if k == "pctor" and ty[0] == "entry" and p[1][-1] in ("Occupied", "Vacant") and (len(p[1]) == 1 or p[1][-2] == "Entry"):
+            if len(p[2]) != 1:
+                raise Reject(f"pattern `Entry::{p[1][-1]}(..)` arity")
+            s, env = self.cpat(p[2][0], ("occ" if p[1][-1] == "Occupied" else "vac",) + ty[1:], env)
+            return f"Rust.Entry.{p[1][-1]} {atom(s)}", env
+        if k in ("pctor", "pstruct") and ty[0] == "struct" and (p[1][-1] in (ty[1], "Self") or self.w.alias_base(p[1][-1]) == ty[1]):
             st = self.w.structs[ty[1]]
             if st.dropped:
                 raise Reject(f"pattern on `{st.name}`, whose fields are only partly translated")
@@ -2515,9 +3471,9 @@ class Compiler:
             return "⟨" + ", ".join(out) + "⟩", env
         if k == "ppath" and ty[0] == "enum" and len(p[1]) == 1 and ty[1] in self.globs:
             p = ("ppath", [ty[1], p[1][0]])
-        if k in ("pctor", "pstruct", "ppath") and ty[0] == "enum" and len(p[1]) >= 2 and p[1][-2] in (ty[1], "Self"):
+        if k in ("pctor", "pstruct", "ppath") and ty[0] == "enum" and len(p[1]) >= 2 and (p[1][-2] in (ty[1], "Self") or self.w.alias_base(p[1][-2]) == ty[1]):
             en = self.w.enums[ty[1]]
-            var = en.variant(p[1][-1])
+            var = en.variant(p[1][-1], ty)
             if var is None:
                 raise Reject(f"pattern `{'::'.join(p[1])}`: no translated variant")
             want = {"ppath": "unit", "pctor": "tuple", "pstruct": "struct"}[k]
@@ -2545,7 +3501,9 @@ class Compiler:
 
     def needs_order(self, e):
         """a `match` that needs the ordered reading: guards, or-patterns, a wildcard arm or a tuple scrutinee"""
-        return e[1][0] == "tuple" or any(g is not None or len(ps) != 1 or ps[0][0] == "pwild" for ps, g, _ in e[2])
+        return e[1][0] == "tuple" or any(g is not None or len(ps) != 1 or ps[0][0] == "pwild" or len(self.expand_or(ps[0])) != 1
+                                          or (ps[0][0] == "pbind" and len(e[2]) > 1)        # `x => ..` as the catch-all arm
+                                          for ps, g, _ in e[2])
 
     def binder_free(self, p):
         """no binder and no constructor with arguments: the patterns the if-chain reading can test"""
@@ -2564,7 +3522,100 @@ class Compiler:
 
     def is_chain(self, e):
         """an ordered `match` that becomes an if-chain (guards allowed, binder-free patterns only)"""
-        return self.needs_order(e) and not self.is_ordered(e)
+        return self.needs_order(e) and not self.is_ordered(e) and not self.is_gmatch(e)
+
+    def takes_apart(self, p):
+        """does the pattern take a value apart (constructor / struct patterns, binders below the top)?"""
+        k = p[0]
+        if k in ("pctor", "pstruct"):
+            return True
+        if k == "ptuple":
+            return any(q[0] == "pbind" or self.takes_apart(q) for q in p[1])
+        if k == "por":
+            return any(self.takes_apart(q) for q in p[1])
+        return False
+
+    def is_gmatch(self, e):
+        """a `match` WITH guards whose patterns take values apart (and that is not the Option special case c_optmatch):
+        compiled by c_gmatch as a Lean `match` with fall-through matches behind the guarded arms"""
+        if e[0] != "match" or self.is_optmatch(e):
+            return False
+        return any(g is not None for _, g, _ in e[2]) and any(self.takes_apart(p) for ps, _, _ in e[2] for p in ps)
+
+    def c_gmatch(self, e, env, k, ind, expect):
+        """`match s { p1 if g1 => a1, p2 => a2, .. }`, arms tried in source order:
+            let scrut := s
+            match scrut with
+            | p1 => if g1 then a1 else (match scrut with | p2 => a2 | ..)     -- the SAME match over the arms that follow
+            | p2 => a2 | ..
+        Alternatives that the ones listed before them (in the same Lean `match`) already cover are left out -- Lean
+        rejects redundant alternatives, and a value can reach them only through a fall-through match, which lists them.
+        The outer match must be exhaustive; a fall-through match must cover the pattern of its guarded arm and gets a
+        final `| _ => Rust.unreachable` (dead by construction) if it does not cover everything else too.
+        k None: a pure value (returns V); otherwise a statement / tail whose fall-through continues with k (text)."""
+        pad = "  " * ind
+        if k is not None:
+            lines, s = self.head(e[1], env, ind)
+        else:
+            lines, s = [], self.cx(e[1], env, ind + 1)
+        if has_hole(s.ty):
+            raise Reject("`match` with guards on a scrutinee of undetermined type")
+        self.total_enums(s.ty)
+        scr = self.fresh("scrut")
+        lines = lines + [f"{pad}let {scr} : {ty_lean(s.ty)} := {self.val(s)}"]
+        arms = [([q for p in pats for q in self.expand_or(p)], guard, body) for pats, guard, body in e[2]]
+        state = {"u": expect}
+
+        def body_text(body, env_arm, ind2):
+            if k is not None:
+                return self.cs(body[1], 0, body[2], env_arm, k, ind2, expect)
+            b = self.pure_block(body, env_arm, ind2, state["u"])
+            u2 = unify(state["u"], b.ty) if state["u"] else b.ty
+            if u2 is None:
+                raise Reject("match arms of different types")
+            state["u"] = u2
+            return "  " * ind2 + self.val(b)
+
+        def emit(j, ind2, region):
+            pad2 = "  " * ind2
+            rows, out = [], []
+            for i in range(j, len(arms)):
+                alts, guard, body = arms[i]
+                live = []
+                for a in alts:
+                    n = self.npat(a, s.ty)
+                    if self.useful(rows, [n], [s.ty]):
+                        live.append(a)
+                        rows.append([n])
+                if not live:
+                    continue
+                if len({tuple(self.binders_of(a)) for a in live}) != 1:
+                    raise Reject("or-pattern `p | q` whose alternatives bind different variables")
+                pts, env_arm = [], env
+                for a in live:
+                    pt, env_arm = self.cpat(a, s.ty, env)
+                    pts.append(pt)
+                if guard is None:
+                    text = body_text(body, env_arm, ind2 + 2)
+                else:
+                    g = self.prop(self.cx(guard, env_arm, ind2 + 2))
+                    fall = emit(i + 1, ind2 + 3, [self.npat(a, s.ty) for a in live])
+                    text = (f"{pad2}  (if {g} then\n" + body_text(body, env_arm, ind2 + 3) + f"\n{pad2}  else\n{fall})")
+                out.append(f"{pad2}| {' | '.join(pts)} =>\n{text}")
+            for n in region:
+                if self.useful(rows, [n], [s.ty]):
+                    raise Reject("`match` with guards that is not exhaustive without them" if region == [("w",)] else
+                                 "a guarded arm whose pattern the arms after it do not cover")
+            if self.useful(rows, [("w",)], [s.ty]):
+                out.append(f"{pad2}| _ => Rust.unreachable")     # only values outside the guarded arm's pattern: dead
+            if not out:
+                raise Reject("`match` without a reachable arm")
+            return f"{pad2}(match {scr} with\n" + "\n".join(out) + ")"
+
+        text = "\n".join(lines + [emit(0, ind, [("w",)])])
+        if k is not None:
+            return text
+        return V("(" + text.lstrip() + ")", state["u"])
 
     def is_optmatch(self, e):
         """a `match` on an Option that neither the if-chain nor the plain Lean `match` reading covers: guards together
@@ -2686,9 +3737,10 @@ class Compiler:
         out = []
         for pats, _, body in e[2]:
             alts, env2 = [], env
-            for p in pats:
-                if len(pats) > 1 and not self.binder_free(p) and any(q[0] == "pbind" for q in self.subpatterns(p)):
-                    raise Reject("or-pattern `p | q` with binders")
+            flat = [q for p in pats for q in self.expand_or(p)]
+            if len(flat) > 1 and len({tuple(self.binders_of(q)) for q in flat}) != 1:
+                raise Reject("or-pattern `p | q` whose alternatives bind different variables")
+            for p in flat:
                 pt, env2 = self.cpat(p, s.ty, env)
                 alts.append(pt)
             out.append((" | ".join(alts), env2, body))
@@ -2696,7 +3748,7 @@ class Compiler:
 
     def subpatterns(self, p):
         yield p
-        subs = p[1] if p[0] == "ptuple" else p[2] if p[0] == "pctor" else [q for _, q in p[2]] if p[0] == "pstruct" else []
+        subs = p[1] if p[0] in ("ptuple", "por") else p[2] if p[0] == "pctor" else [q for _, q in p[2]] if p[0] == "pstruct" else []
         for q in subs:
             yield from self.subpatterns(q)
 
@@ -2772,7 +3824,13 @@ class Compiler:
                 return ("arms", [(pa, enva, a), ("none", env, b)])
             if s.ty[0] == "opt" and p[0] == "ppath":
                 return ("arms", [("none", env, a), ("some _", env, b)])
-            raise Reject("`if let` pattern other than `Some(<irrefutable>)` / `None`")
+            # any other refutable pattern (an enum variant, `Ok(..)`, an entry, nested patterns): the pattern, then `_`
+            if has_hole(s.ty) or len(self.expand_or(p)) != 1:
+                raise Reject("`if let` with an or-pattern / on a value of undetermined type")
+            self.total_enums(s.ty)
+            if not self.useful([[self.npat(p, s.ty)]], [("w",)], [s.ty]):
+                raise Reject("`if let` with a pattern that always matches")
+            return ("arms", [(pa, enva, a), ("_", env, b)])
         if self.is_ordered(e):
             return ("arms", self.ordered_arms(e, s, env))
         arms = e[2]
@@ -2793,6 +3851,11 @@ class Compiler:
                            "none" if p[0] == "ppath" and p[1] == ["None"] else "?" for p in pats)
             if kinds != ["none", "some"]:
                 raise Reject("match on an Option must have exactly the arms `Some(<irrefutable>)` and `None`")
+        elif s.ty[0] == "res":
+            kinds = sorted(p[1][0] if p[0] == "pctor" and p[1] in (["Ok"], ["Err"]) and len(p[2]) == 1 and self.irrefutable(p[2][0]) else "?"
+                           for p in pats)
+            if kinds != ["Err", "Ok"]:
+                raise Reject("match on a Result must have exactly the arms `Ok(<irrefutable>)` and `Err(<irrefutable>)`")
         elif s.ty[0] == "enum":
             en = self.w.enums[s.ty[1]]
             if en.dropped:
@@ -2829,6 +3892,15 @@ class Compiler:
                 return r[0], r[1] + [e[2]]
         if e[0] == "un" and e[1] == "*":
             return self.lvalue(e[2], env)
+        if e[0] == "mcall" and e[2] == "get_mut" and not e[3]:
+            # `entry.get_mut()` on an occupied entry: the entry's current value (written back to the map by `writeback`)
+            r = self.lvalue(e[1], env)
+            if r:
+                try:
+                    if self.place(r[0], r[1], env).ty[0] == "occ":
+                        return r[0], r[1] + ["value"]
+                except Reject:
+                    return None
         return None
 
     def place(self, root, fields, env):
@@ -2854,29 +3926,69 @@ class Compiler:
         """after a change of the local `root`: if it is the payload of a `&mut` borrow of an Option place (c_let), the
         place is updated too, so that the two never differ while the borrow is alive"""
         al = env[root].alias
+        if not al and env[root].ty[0] == "occ":
+            # an occupied entry whose value was changed through `get_mut()` / `insert(v)`: the map it borrows is written
+            mroot, mfields = env[root].ty[3]
+            if mroot not in env or not env[mroot].mut:
+                raise Reject("entry whose map is no longer in scope")
+            mp = self.place(mroot, list(mfields), env)
+            x = env[root].lean
+            new = self.set_place(mroot, list(mfields), env, f"(Rust.Map.insert {atom(mp.text)} {x}.key {x}.value)")
+            return [f"{pad}let {env[mroot].lean} : {ty_lean(env[mroot].ty)} := {new}"] + self.writeback(mroot, env, pad)
         if not al:
             return []
         aroot, afields, wrap = al
-        new = self.set_place(aroot, afields, env, f"(some {env[root].lean})" if wrap == "some" else env[root].lean)
+        if callable(wrap):
+            inner = wrap(self.place(aroot, afields, env).text, env[root].lean)      # a map accessor: see mut_lens
+        else:
+            inner = f"(some {env[root].lean})" if wrap == "some" else env[root].lean
+        new = self.set_place(aroot, afields, env, inner)
         return [f"{pad}let {env[aroot].lean} : {ty_lean(env[aroot].ty)} := {new}"]
 
     def effect(self, e, env):
         """is `e` a state-changing head: a `&mut self` method call on an assignable place / `.take()` on one"""
+        if e[0] == "call":
+            fn = self.resolve_call(e[1])
+            if fn is None or fn.mutparam is None or len(e[2]) != len(fn.params):
+                return None
+            a = e[2][fn.mutparam]
+            a = a[1] if a[0] == "mutref" else a
+            lv = self.lvalue(a, env)
+            if not lv or not env[lv[0]].mut:
+                raise Reject(f"call of `{'::'.join(e[1])}` whose `&mut` argument is not a field path of a mutable variable")
+            return ("pcall", lv, self.place(lv[0], lv[1], env), fn)
         if e[0] != "mcall":
             return None
         lv = self.lvalue(e[1], env)
+        if lv and not lv[1] and env[lv[0]].ty[0] in ("occ", "vac"):
+            # an entry handle (PRELUDE3): `remove()` / `insert(v)` consume or change it and write the map it borrows
+            ety = env[lv[0]].ty
+            pl = V(env[lv[0]].lean, ety)
+            if ety[0] == "occ" and e[2] == "remove" and not e[3]:
+                return ("occ_remove", lv, pl)
+            if ety[0] == "occ" and e[2] == "insert" and len(e[3]) == 1 and env[lv[0]].mut:
+                return ("occ_insert", lv, pl)
+            if ety[0] == "vac" and e[2] == "insert" and len(e[3]) == 1:
+                return ("vac_insert", lv, pl)
+            return None
         if not lv or not env[lv[0]].mut:
             return None
         try:
             pl = self.place(lv[0], lv[1], env)
         except Reject:
             return None
+        if pl.ty[0] == "map" and e[2] == "insert" and len(e[3]) == 2:
+            return ("map_insert", lv, pl)
+        if pl.ty[0] == "map" and e[2] == "remove" and len(e[3]) == 1:
+            return ("map_remove", lv, pl)
         if e[2] == "take" and not e[3] and pl.ty[0] == "opt":
             return ("take", lv, pl)
         if e[2] == "push" and len(e[3]) == 1 and pl.ty[0] == "list":
             return ("push", lv, pl)
         if e[2] == "replace" and len(e[3]) == 1 and pl.ty[0] == "opt":
             return ("replace", lv, pl)
+        if pl.ty[0] == "struct" and self.accessor_of(pl.ty[1], e[2]) is not None:
+            return None                   # a `&mut`-returning accessor: not a call, read in place by mut_lens
         if pl.ty[0] == "struct" and self.method_fn(pl.ty[1], e[2]) is not None and self.w.fns[(pl.ty[1], e[2])].mode == "mut":
             return ("call", lv, pl)
         return None
@@ -2885,6 +3997,61 @@ class Compiler:
         """an initialiser / statement / tail / scrutinee: (prefix lines, V).  State-changing heads are written out."""
         pad = "  " * ind
         eff = self.effect(e, env)
+        if eff and eff[0] == "pcall":
+            _, (root, fields), pl, fn = eff
+            shown = "::".join(e[1])
+            if fn.mode != "none" or fn.tvars:
+                raise Reject(f"call of `{shown}`, which has a `&mut` parameter and a receiver / type parameters")
+            vs = []
+            for j, (a, (_, t)) in enumerate(zip(e[2], fn.params)):
+                if j == fn.mutparam:
+                    if unify(pl.ty, t) is None:
+                        raise Reject(f"`&mut` argument of `{shown}` of type {ty_rust(pl.ty)} where {ty_rust(t)} is required")
+                    vs.append(pl.text)
+                else:
+                    vs.append(self.val(self.cx(a, env, ind, t)))
+            call = " ".join([self.fname(fn)] + [atom(v) for v in vs])
+            if fn.ret == UNIT:
+                return ([f"{pad}let {env[root].lean} : {ty_lean(env[root].ty)} := {self.set_place(root, fields, env, '(' + call + ')')}"]
+                        + self.writeback(root, env, pad)), self.fit(V("()", UNIT), expect)
+            c = self.fresh("call")
+            lines = [f"{pad}let {c} := {call}",
+                     f"{pad}let {env[root].lean} : {ty_lean(env[root].ty)} := {self.set_place(root, fields, env, c + '.1')}"]
+            return lines + self.writeback(root, env, pad), self.fit(V(f"{c}.2", fn.ret), expect)
+        if eff and eff[0] in ("occ_remove", "occ_insert", "vac_insert"):
+            _, (root, _), pl = eff
+            mroot, mfields = pl.ty[3]
+            if mroot not in env or not env[mroot].mut:
+                raise Reject("entry whose map is no longer in scope")
+            mp = self.place(mroot, list(mfields), env)
+            x = env[root].lean
+            if eff[0] == "occ_remove":
+                new = self.set_place(mroot, list(mfields), env, f"(Rust.Map.remove {atom(mp.text)} {x}.key)")
+                return ([f"{pad}let {env[mroot].lean} : {ty_lean(env[mroot].ty)} := {new}"] + self.writeback(mroot, env, pad),
+                        self.fit(V(f"{x}.value", pl.ty[2]), expect))
+            val = self.cx(e[3][0], env, ind, pl.ty[2] if not has_hole(pl.ty[2]) else None)
+            if eff[0] == "vac_insert":
+                new = self.set_place(mroot, list(mfields), env, f"(Rust.Map.insert {atom(mp.text)} {x}.key {atom(self.val(val))})")
+                # the `&mut V` it returns is not a value of the accepted subset: the call must stand alone
+                return ([f"{pad}let {env[mroot].lean} : {ty_lean(env[mroot].ty)} := {new}"] + self.writeback(mroot, env, pad),
+                        self.fit(V("()", UNIT), expect, "the `&mut V` returned by `VacantEntry::insert` (it must be discarded)"))
+            old = self.fresh("old")
+            lines = [f"{pad}let {old} : {ty_lean(pl.ty[2])} := {x}.value",
+                     f"{pad}let {x} : {ty_lean(pl.ty)} := {{ {x} with value := {self.val(val)} }}"]
+            return lines + self.writeback(root, env, pad), self.fit(V(old, pl.ty[2]), expect)
+        if eff and eff[0] in ("map_insert", "map_remove"):
+            _, (root, fields), pl = eff
+            kx = self.cx(e[3][0], env, ind, pl.ty[1] if not has_hole(pl.ty[1]) else None)
+            kt = atom(self.val(kx))
+            old = self.fresh("old")
+            lines = [f"{pad}let {old} : {ty_lean(('opt', pl.ty[2]))} := Rust.Map.get {atom(pl.text)} {kt}"]
+            if eff[0] == "map_insert":
+                val = self.cx(e[3][1], env, ind, pl.ty[2] if not has_hole(pl.ty[2]) else None)
+                new = f"(Rust.Map.insert {atom(pl.text)} {kt} {atom(self.val(val))})"
+            else:
+                new = f"(Rust.Map.remove {atom(pl.text)} {kt})"
+            lines.append(f"{pad}let {env[root].lean} : {ty_lean(env[root].ty)} := {self.set_place(root, fields, env, new)}")
+            return lines + self.writeback(root, env, pad), self.fit(V(old, ("opt", pl.ty[2])), expect)
         if eff and eff[0] == "take":
             _, (root, fields), pl = eff
             t = self.fresh("taken")
@@ -2927,9 +4094,10 @@ class Compiler:
         return [], self.cx(e, env, ind, expect)
 
     def ret_text(self, text, env):
-        if self.mode != "mut":
+        if self.mode != "mut" and getattr(self, "mutparam", None) is None:
             return text
-        return env["self"].lean if self.ret == UNIT else f"({env['self'].lean}, {text})"
+        st = env["self" if self.mode == "mut" else self.mutparam].lean
+        return st if self.ret == UNIT else f"({st}, {text})"
 
     def k_ret(self, v, env, ind):
         self.fit(v, self.ret, "returned value")
@@ -2961,17 +4129,26 @@ class Compiler:
         branch, block or closure is left where it is (and rejected by the expression compiler)."""
         lets = []
 
-        def go(x, top):
+        def is_path(x):
+            return (x[0] == "path" and len(x[1]) == 1) or (x[0] == "field" and is_path(x[1]))
+
+        def go(x, top, spine=False):
             k = x[0]
             if k == "try":
-                inner = go(x[1], False)
+                inner = go(x[1], False, spine or top)
                 if top:
                     return ("try", inner)
                 name = self.fresh("try")
                 lets.append(("let", ("pbind", name, False), None, ("try", inner), None))
                 return ("path", [name])
             if k == "mcall":
-                r = go(x[1], False)
+                if x[2] == "take" and not x[3] and spine and not top and is_path(x[1]):
+                    # `place.take()` at the head of a method chain (`place.take().filter(..).unwrap_or_else(..)`): it is the
+                    # first thing the chain evaluates, so it is taken out as `let taken = place.take();`
+                    name = self.fresh("taken")
+                    lets.append(("let", ("pbind", name, False), None, x, None))
+                    return ("path", [name])
+                r = go(x[1], False, spine or top)
                 return ("mcall", r, x[2], [a if a[0] == "closure" else go(a, False) for a in x[3]])
             if k == "call":
                 return ("call", x[1], [a if a[0] == "closure" else go(a, False) for a in x[2]])
@@ -3034,7 +4211,15 @@ class Compiler:
         kind = e[0]
         if kind == "panic":
             return f"{pad}Rust.unreachable"
+        if kind == "assert":
+            c = self.prop(self.cx(e[1], env, ind + 1))
+            return f"{pad}(if {c} then\n" + rest(env, ind + 1) + f"\n{pad}else\n{pad}  {self.panic_text()})"
+        if kind == "for":
+            return self.c_for(e, env, ind) + "\n" + rest(env, ind)
         if kind == "assign":
+            via = self.assign_via_lens(e, env, ind)
+            if via is not None:
+                return self.cs(list(items[:i]) + via + list(items[i + 1:]), i, tail, env, k, ind, expect)
             line, env2 = self.c_assign(e, env, ind)
             return line + "\n" + rest(env2, ind)
         if kind in BLOCKLIKE:
@@ -3072,6 +4257,63 @@ class Compiler:
             raise Reject("`return ..?`")
         lines, v = self.head(e[1], env, ind, self.ret)
         return "\n".join(lines + [self.k_ret(v, env, ind)])
+
+    def c_for(self, e, env, ind):
+        """`for x in <map place>.values_mut() { x.f = e; .. }` (PRELUDE3): the body, a function of `x` alone, on every value:
+        `Rust.Map.map_values (fun x => ..) place`.  The body may only assign fields of `x`; what it assigns may not mention the
+        variable the map lives in (the loop holds a `&mut` borrow of it)."""
+        _, pat, it, body = e
+        pad = "  " * ind
+        if pat[0] != "pbind" or pat[2]:
+            raise Reject("`for` with a pattern other than a plain variable")
+        if not (it[0] == "mcall" and it[2] == "values_mut" and not it[3]):
+            raise Reject("`for` loop over anything but `<map>.values_mut()` (iteration whose order could be observed is not in the vocabulary)")
+        lv = self.lvalue(it[1], env)
+        if not lv or not env[lv[0]].mut or env[lv[0]].alias:
+            raise Reject("`.values_mut()` on something that is not a field path of a mutable variable")
+        pl = self.place(lv[0], lv[1], env)
+        if pl.ty[0] != "map":
+            raise Reject(f"`.values_mut()` on a value of type {ty_rust(pl.ty)}")
+        inner = {n: v for n, v in env.items() if n != lv[0]}
+        x, env2 = self.bind(pat[1], pl.ty[2], True, inner)
+        if body[2] is not None and body[2][0] == "assign":
+            body = ("block", body[1] + [("expr", body[2])], None)
+        lines = []
+        for st in body[1]:
+            if not (st[0] == "expr" and st[1][0] == "assign" and (self.lvalue(st[1][1], env2) or (None,))[0] == pat[1]):
+                raise Reject("statement other than an assignment to a field of the loop variable in a `for` over `values_mut()`")
+            line, env2 = self.c_assign(st[1], env2, 0)
+            lines.append(line.strip())
+        if body[2] is not None or not lines:
+            raise Reject("`for` over `values_mut()` whose body is not a sequence of field assignments")
+        fn = f"(fun {x} => " + "; ".join(lines + [x]) + ")"
+        new = f"(Rust.Map.map_values {fn} {atom(pl.text)})"
+        return "\n".join([f"{pad}let {env[lv[0]].lean} : {ty_lean(env[lv[0]].ty)} := {self.set_place(lv[0], lv[1], env, new)}"]
+                         + self.writeback(lv[0], env, pad))
+
+    def assign_via_lens(self, e, env, ind):
+        """`<accessor>(..).f.g = rhs;` where the accessor returns `&mut T` (mut_lens): the two statements
+        `let place_n = <accessor>(..);  place_n.f.g = rhs;` (None if the left side is not of that form)"""
+        x, fs = e[1], []
+        while x[0] == "field":
+            fs.append(x[2])
+            x = x[1]
+        if x[0] == "un" and x[1] == "*":
+            x = x[2]
+        if x[0] != "mcall" or self.lvalue(e[1], env) is not None:
+            return None
+        used = set(self.used)
+        ml = self.mut_lens(x, env, ind)
+        self.used = used
+        if ml is None:
+            return None
+        if not ml["unwrapped"]:
+            raise Reject("assignment through an `Option<&mut T>`")
+        tmp = self.fresh("place")
+        lhs = ("path", [tmp])
+        for f in reversed(fs):
+            lhs = ("field", lhs, f)
+        return [("let", ("pbind", tmp, True), None, x, None), ("expr", ("assign", lhs, e[2], e[3]))]
 
     def c_assign(self, e, env, ind):
         _, lhs, op, rhs = e
@@ -3143,24 +4385,80 @@ class Compiler:
                 raise Reject("`let .. else` block that can fall through (it must end in `return`)")
             other = self.cs(els[1], 0, els[2], env, k_div2, ind + 1, UNIT)
             return f"{pad}(match {pl.text} with\n{pad}| none =>\n{other}\n{pad}| some {lean} =>\n" + rest(env2, ind + 1) + ")"
+        ml = self.mut_lens(init, env, ind)
+        if ml is not None:
+            return self.c_let_lens(ml, p, annt, els, env, ind, rest)
+        branchy = False
+        if init[0] in BLOCKLIKE and els is None and not self.branch_is_pure(init, env):
+            used = set(self.used)
+            try:                       # the forms the plain reading covers (a state-changing scrutinee only) keep it
+                self.head(init, env, ind, annt)
+            except Reject:
+                branchy = True
+            self.used = used
+        if branchy:
+            # `let <pattern> = match .. { arms that return early / change state .. };`: the rest of the function is the
+            # continuation of every arm that yields a value
+            if not self.irrefutable(p):
+                raise Reject("refutable `let` pattern without `else`")
+            # first pass: the types the arms yield, unified (each arm alone may leave type arguments open: `Ok(x)` says
+            # nothing about the error type); the second pass fits every arm's value to that common type
+            seen = []
+
+            def k_probe(v, _env_inner, _ind2):
+                seen.append(v.ty)
+                return ""
+            used, pend, hdr = set(self.used), list(self.w.pending), list(self.w.aux_header)
+            self.c_branchy(init, env, k_probe, ind, annt)
+            self.used = used
+            self.w.pending[:] = pend + [x for x in self.w.pending if x not in pend]
+            self.w.aux_header[:] = hdr + [x for x in self.w.aux_header if x not in hdr]
+            common = annt
+            for t in seen:
+                common = t if common is None else unify(common, t)
+                if common is None:
+                    raise Reject("the arms of a `let` initialiser yield values of different types")
+            annt = common
+
+            def k_bind(v, _env_inner, ind2):
+                self.fit(v, annt, "initialiser")
+                if self.undet(v.ty):
+                    raise Reject("type of a `let` initialiser is not determined")
+                pad2 = "  " * ind2
+                if p[0] == "pbind":
+                    lean, env2 = self.bind(p[1], v.ty, p[2], env)
+                    return f"{pad2}let {lean} : {ty_lean(v.ty)} := {self.val(v)}\n" + rest(env2, ind2)
+                if p[0] == "pwild":
+                    return rest(env, ind2)
+                pt, env2 = self.cpat(p, v.ty, env)
+                return f"{pad2}(match {self.val(v)} with\n{pad2}| {pt} =>\n" + rest(env2, ind2 + 1) + ")"
+            return self.c_branchy(init, env, k_bind, ind, annt)
         lines, v = self.head(init, env, ind, annt)
         if els is not None:
             if self.irrefutable(p):
                 raise Reject("`let .. else` with an irrefutable pattern")
-            if not (v.ty[0] == "opt" and p[0] == "pctor" and p[1] == ["Some"] and self.irrefutable(p[2][0])):
-                raise Reject("`let .. else` pattern other than `Some(<irrefutable>)` on an Option")
+            if self.undet(v.ty):
+                raise Reject("`let .. else` on a value of undetermined type")
+            if len(self.expand_or(p)) != 1:
+                raise Reject("`let .. else` with an or-pattern")
             pt, env2 = self.cpat(p, v.ty, env)
 
             def k_div(_v, _env, _ind):
                 raise Reject("`let .. else` block that can fall through (it must end in `return`)")
             other = self.cs(els[1], 0, els[2], env, k_div, ind + 1, UNIT)
-            return "\n".join(lines + [f"{pad}(match {v.text} with\n{pad}| none =>\n{other}\n{pad}| {pt} =>\n" + rest(env2, ind + 1) + ")"])
+            if v.ty[0] == "opt" and p[0] == "pctor" and p[1] == ["Some"] and self.irrefutable(p[2][0]):
+                return "\n".join(lines + [f"{pad}(match {v.text} with\n{pad}| none =>\n{other}\n{pad}| {pt} =>\n" + rest(env2, ind + 1) + ")"])
+            # any other refutable pattern (an enum variant, `Ok(..)`, an entry, nested patterns): first the pattern, then `_`
+            self.total_enums(v.ty)
+            if not self.useful([[self.npat(p, v.ty)]], [("w",)], [v.ty]):
+                raise Reject("`let .. else` with a pattern that always matches")
+            return "\n".join(lines + [f"{pad}(match {self.val(v)} with\n{pad}| {pt} =>\n" + rest(env2, ind + 1) + f"\n{pad}| _ =>\n{other})"])
         if v.ty == ("list", HOLE) and p[0] == "pbind" and following:
             # `let mut xs = Vec::new();` directly followed by `xs.push(e);`: the element type is that of e
             nx = following[0]
             if nx[0] == "expr" and nx[1][0] == "mcall" and nx[1][1] == ("path", [p[1]]) and nx[1][2] == "push" and len(nx[1][3]) == 1:
                 v.ty = ("list", self.cx(nx[1][3][0], env, ind).ty)
-        if has_hole(v.ty):
+        if self.undet(v.ty):
             raise Reject("type of a `let` initialiser is not determined" + (" (integer literal: annotate the type)" if v.ty == INTLIT else ""))
         if p[0] == "pbind":
             lean, env2 = self.bind(p[1], v.ty, p[2], env)
@@ -3171,6 +4469,209 @@ class Compiler:
             raise Reject("refutable `let` pattern without `else`")
         pt, env2 = self.cpat(p, v.ty, env)
         return "\n".join(lines + [f"{pad}(match {v.text} with\n{pad}| {pt} =>\n" + rest(env2, ind + 1) + ")"])
+
+    # ---- `&mut`-returning accessors (PRELUDE3): recognised only where the reference is bound / assigned through at once
+    def mut_lens(self, e, env, ind):
+        """`e` as an accessor expression of type `Option<&mut T>` (`unwrapped`: `&mut T`, the `None` case panics) over a map
+        that is a field path of a mutable variable:
+            <place>.get_mut(k)   <place>.get_index_mut(i).map(|(_k, v)| v)   <those>.expect("..") / .unwrap() /
+            .unwrap_or_else(|| panic!(..))   <struct place>.acc(args) for a user fn `acc(&mut self, ..) -> &mut T` /
+            `-> Option<&mut T>` whose body is ONE such expression over `self` (read with the arguments substituted)
+        Returns None (not of that form) or a dict: get (V of type Option T: the current value), root / fields (the map
+        place), wrap(place text, x) (the place after writing x back), unwrapped."""
+        if e[0] != "mcall":
+            return None
+        recv, name, args = e[1], e[2], e[3]
+        if name in ("expect", "unwrap", "unwrap_or_else"):
+            inner = self.mut_lens(recv, env, ind)
+            if inner is None:
+                return None
+            if inner["unwrapped"]:
+                raise Reject(f"`.{name}(..)` on a `&mut` reference")
+            if name == "unwrap_or_else" and not (len(args) == 1 and args[0][0] == "closure" and args[0][1] is None and args[0][2][0] == "panic"):
+                raise Reject("`.unwrap_or_else(..)` on an `Option<&mut T>` with anything but `|| panic!(..)`")
+            if name != "unwrap_or_else" and args:
+                raise Reject(f"`.{name}(..)` arguments")
+            return dict(inner, unwrapped=True)
+        if name == "map" and recv[0] == "mcall" and recv[2] == "get_index_mut":
+            c = args[0] if len(args) == 1 else None
+            if not (c and c[0] == "closure" and isinstance(c[1], tuple) and len(c[1][1]) == 2 and c[1][1][1][0] == "pbind"
+                    and c[2] == ("path", [c[1][1][1][1]])):
+                raise Reject("`.get_index_mut(i).map(..)` with anything but `|(_key, value)| value`")
+            lv = self.lvalue(recv[1], env)
+            pl = self.lens_place(lv, env, "get_index_mut")
+            if pl.ty[0] != "imap" or len(recv[3]) != 1:
+                raise Reject(f"`.get_index_mut(..)` on a value of type {ty_rust(pl.ty)}")
+            i = self.cx(recv[3][0], env, ind, NAT)
+            if i.ty == INTLIT:
+                i.ty = NAT
+            if i.ty != NAT:
+                raise Reject(f"`.get_index_mut(..)` with an index of type {ty_rust(i.ty)}")
+            it = atom(self.val(i))
+            pair = self.fresh("kv")
+            get = V(f"(match Rust.IndexMap.get_index {atom(pl.text)} {it} with | some {pair} => some {pair}.2 | none => none)", ("opt", pl.ty[2]))
+            return {"get": get, "root": lv[0], "fields": list(lv[1]), "unwrapped": False,
+                    "wrap": lambda place, x, it=it: f"(Rust.IndexMap.set_index {atom(place)} {it} {x})"}
+        if name == "get_mut" and len(args) == 1:
+            lv = self.lvalue(recv, env)
+            if lv is None:
+                return None
+            try:
+                pl0 = self.place(lv[0], lv[1], env)
+            except Reject:
+                return None
+            if pl0.ty[0] not in MAPLIKE:
+                return None
+            pl = self.lens_place(lv, env, "get_mut")
+            kx = self.cx(args[0], env, ind, pl.ty[1] if not has_hole(pl.ty[1]) else None)
+            kt = atom(self.val(kx))
+            ns = "Rust.Map" if pl.ty[0] == "map" else "Rust.IndexMap"
+            get = V(f"({ns}.get {atom(pl.text)} {kt})", ("opt", pl.ty[2]))
+            setter = "insert" if pl.ty[0] == "map" else "set"
+            return {"get": get, "root": lv[0], "fields": list(lv[1]), "unwrapped": False,
+                    "wrap": lambda place, x, kt=kt, ns=ns, setter=setter: f"({ns}.{setter} {atom(place)} {kt} {x})"}
+        if name == "get_index_mut":
+            raise Reject("`.get_index_mut(i)` other than `.get_index_mut(i).map(|(_key, value)| value)`")
+        return self.user_lens(e, env, ind)
+
+    def lens_place(self, lv, env, what):
+        if not lv or not env[lv[0]].mut or env[lv[0]].alias:
+            raise Reject(f"`.{what}(..)` on something that is not a field path of a mutable variable")
+        if any(v.alias and v.alias[:2] == (lv[0], list(lv[1])) for v in env.values()):
+            raise Reject("second `&mut` borrow of the same place")
+        return self.place(lv[0], lv[1], env)
+
+    def user_lens(self, e, env, ind):
+        """`<struct place>.acc(args)` for a user fn `acc(&mut self, ..) -> &mut T` / `-> Option<&mut T>` of a translated,
+        non-generic struct whose body is ONE accessor expression over `self` (mut_lens): read as that expression with the
+        arguments (pure) in place of the parameters.  The function is found by lookup like an auxiliary item; its source
+        hash goes into the header of the generated file."""
+        recv, name, args = e[1], e[2], e[3]
+        lv = self.lvalue(recv, env)
+        if lv is None or not env[lv[0]].mut:
+            return None
+        try:
+            pl = self.place(lv[0], lv[1], env)
+        except Reject:
+            return None
+        if pl.ty[0] != "struct":
+            return None
+        acc = self.accessor_of(pl.ty[1], name)
+        if acc is None:
+            return None
+        parsed, gs, where = acc
+        line = f"    + `&mut` accessor (read in place at its calls, PRELUDE3): {where}"
+        if line not in self.w.aux_header:
+            self.w.aux_header.append(line)
+        return self.user_lens_body(e, env, ind, lv, pl, parsed, gs)
+
+    def accessor_of(self, sname, name):
+        """the parsed source of `sname::name` if it is a `&mut`-returning accessor (`fn name(&mut self, ..) -> &mut T` /
+        `-> Option<&mut T>`) found by lookup; None otherwise"""
+        key = (sname, name)
+        if self.w.ctx is None or name in BUILTIN_METHODS or key in self.w.fns:
+            return None
+        if key not in self.w.accessors:
+            self.w.accessors[key] = None
+            cands = lookup_candidates(self.w, sname, name)
+            if len(cands) == 1:
+                rel, a, b, gs, sty_toks, label, _ = cands[0]
+                raw, text = self.w.source(rel)
+                try:
+                    parsed = Parser(tokenize(text[a:b])).fn()
+                except Reject:
+                    parsed = None
+                if parsed is not None and parsed[2] == "mut" and parsed[4] and (parsed[4][:2] == ["&", "mut"] or parsed[4][:4] == ["Option", "<", "&", "mut"]):
+                    sha = hashlib.sha256(raw[a:b].encode()).hexdigest()[:16]
+                    line = raw.count("\n", 0, a) + 1
+                    self.w.accessors[key] = (parsed, gs, f"{rel} :: {label} :: fn {name}  (line {line})  sha256[:16]={sha}")
+        return self.w.accessors[key]
+
+    def user_lens_body(self, e, env, ind, lv, pl, parsed, gs):
+        recv, name, args = e[1], e[2], e[3]
+        _, fgs, _, params, ret, body = parsed
+        if gs or fgs or self.w.structs[pl.ty[1]].generics:
+            raise Reject(f"`&mut`-returning accessor `{pl.ty[1]}::{name}` with type parameters")
+        if len(args) != len(params):
+            raise Reject(f"call of `{pl.ty[1]}::{name}` with {len(args)} arguments")
+        if body[1] or body[2] is None:
+            raise Reject(f"`&mut`-returning accessor `{pl.ty[1]}::{name}`: its body is not ONE accessor expression (see PRELUDE3)")
+        tr = TypeResolver(self.w, pl.ty, ())
+        env2 = {"self": Var(pl.ty, True, pl.text)}
+        for (pn, _, tt), a in zip(params, args):
+            v = self.cx(a, env, ind, tr.resolve(tt))
+            if has_hole(v.ty):
+                raise Reject(f"argument `{pn}` of `{pl.ty[1]}::{name}` has an undetermined type")
+            env2[pn] = Var(v.ty, False, atom(self.val(v)))
+        try:
+            inner = self.mut_lens(body[2], env2, ind)
+        except Reject as ex:
+            raise Reject(f"`&mut`-returning accessor `{pl.ty[1]}::{name}`: {ex}")
+        if inner is None or inner["root"] != "self":
+            raise Reject(f"`&mut`-returning accessor `{pl.ty[1]}::{name}`: its body is not ONE accessor expression over `self` (see PRELUDE3)")
+        if inner["unwrapped"] != (ret[:2] == ["&", "mut"]):
+            raise Reject(f"`&mut`-returning accessor `{pl.ty[1]}::{name}`: its body does not fit its return type")
+        root, fields = lv[0], list(lv[1]) + list(inner["fields"])
+        if env[root].alias or any(v.alias and v.alias[:2] == (root, fields) for v in env.values()):
+            raise Reject("second `&mut` borrow of the same place")
+        return dict(inner, root=root, fields=fields)
+
+    def undet(self, t):
+        """is the type of a `let` not determined well enough?  For the first two files: any hole.  For the third: a hole at the
+        top or an integer literal of unknown width anywhere; other holes (type arguments Rust infers from a LATER use, e.g.
+        the error type of an `Ok(..)`) are written `_` and left to Lean's elaborator, which rejects what it cannot infer."""
+        if self.w.ctx is None or self.w.ctx.groups[0] not in GROUPS3:
+            return has_hole(t)
+
+        def lit(x):
+            if x == INTLIT:
+                return True
+            cs = ty_children(x)
+            if cs is None:
+                cs = [x[1]] if x[0] in ("opt", "list", "lock") else [x[1], x[2]] if x[0] == "res" else list(x[2]) if x[0] == "struct" else \
+                    list(x[1]) if x[0] == "tuple" else []
+            return any(lit(c) for c in cs)
+        return t == HOLE or lit(t)
+
+    def inhabit(self, t):
+        """a panic as a VALUE of type t (`Rust.unreachable : t`) needs `Inhabited t`: for the groups of the third file the
+        instance is derived on demand (the first two files keep their committed form: their types have what they need)"""
+        if self.w.ctx is not None and self.w.ctx.groups[0] in GROUPS3 and not ensure_inhabited(self.w, t):
+            raise Reject(f"a panic as a value of type {ty_rust(t)}, which cannot be given an `Inhabited` instance")
+
+    def panic_text(self):
+        """`Rust.unreachable` standing for the whole result of the function (a panic aborts it): its type must be inhabited"""
+        tys = ([self.self_ty] if self.mode == "mut" else []) + ([self.ret] if self.ret != UNIT or self.mode != "mut" else [])
+        if getattr(self, "mutparam", None) is not None:
+            tys.append(self.tr_env_ty)
+        for t in tys:
+            if not ensure_inhabited(self.w, t):
+                raise Reject(f"a panic in a function whose result type {ty_rust(t)} cannot be given an `Inhabited` instance")
+        return "Rust.unreachable"
+
+    def c_let_lens(self, ml, p, annt, els, env, ind, rest):
+        """`let Some(x) = <Option<&mut T>> else { .. };` / `let x = <&mut T>;`: x is a mutable local holding the value, every
+        change of it is written back to the map at once (writeback)."""
+        pad = "  " * ind
+        get = ml["get"]
+        if annt is not None:
+            raise Reject("type annotation on a `let` that binds a `&mut` reference")
+        if ml["unwrapped"]:
+            if els is not None or p[0] != "pbind":
+                raise Reject("a `&mut` reference may only be bound as `let x = ..;`")
+            name = p[1]
+            other = f"{pad}  {self.panic_text()}"
+        else:
+            if els is None or not (p[0] == "pctor" and p[1] == ["Some"] and len(p[2]) == 1 and p[2][0][0] == "pbind"):
+                raise Reject("an `Option<&mut T>` may only be bound as `let Some(x) = .. else { .. };` / `if let Some(x) = ..`")
+            name = p[2][0][1]
+
+            def k_div(_v, _env, _ind):
+                raise Reject("`let .. else` block that can fall through (it must end in `return`)")
+            other = self.cs(els[1], 0, els[2], env, k_div, ind + 1, UNIT)
+        lean, env2 = self.bind(name, get.ty[1], True, env)
+        env2[name].alias = (ml["root"], list(ml["fields"]), ml["wrap"])
+        return f"{pad}(match {get.text} with\n{pad}| none =>\n{other}\n{pad}| some {lean} =>\n" + rest(env2, ind + 1) + ")"
 
     def c_branchy(self, e, env, k, ind, expect):
         """if / if let / match / block whose branches may assign, return early and use `?`; every branch that falls
@@ -3186,6 +4687,21 @@ class Compiler:
             return f"{pad}(if {c} then\n{a}\n{pad}else\n{b})"
         if kind == "match" and self.is_optmatch(e):
             return self.c_optmatch(e, env, k, ind, expect)
+        if kind == "match" and self.is_gmatch(e):
+            return self.c_gmatch(e, env, k, ind, expect)
+        if kind == "iflet":
+            ml = self.mut_lens(e[2], env, ind)
+            if ml is not None:
+                # `if let Some(x) = <Option<&mut T>> { .. } else { .. }`: x is a mutable alias of the value (c_let_lens)
+                q = e[1]
+                if ml["unwrapped"] or not (q[0] == "pctor" and q[1] == ["Some"] and len(q[2]) == 1 and q[2][0][0] == "pbind"):
+                    raise Reject("an `Option<&mut T>` may only be bound as `let Some(x) = .. else { .. };` / `if let Some(x) = ..`")
+                get = ml["get"]
+                lean, env2 = self.bind(q[2][0][1], get.ty[1], True, env)
+                env2[q[2][0][1]].alias = (ml["root"], list(ml["fields"]), ml["wrap"])
+                a = self.cs(e[3][1], 0, e[3][2], env2, k, ind + 1, expect)
+                b = self.cs(e[4][1], 0, e[4][2], env, k, ind + 1, expect) if e[4] else k(V("()", UNIT), env, ind + 1)
+                return f"{pad}(match {get.text} with\n{pad}| none =>\n{b}\n{pad}| some {lean} =>\n{a})"
         if kind == "match" and self.is_chain(e):
             conds = self.chain_of(e, env, ind)
             def go(j, ind2):
@@ -3219,6 +4735,9 @@ class Compiler:
                 return k(self.cx(e, env, ind, expect), env, ind)
             return self.c_branchy(e, env, k, ind, expect)
         if kind == "assign":
+            via = self.assign_via_lens(e, env, ind)
+            if via is not None:
+                return self.cs(via, 0, None, env, k, ind, expect)
             line, env2 = self.c_assign(e, env, ind)
             return line + "\n" + k(V("()", UNIT), env2, ind)
         if kind == "return":
@@ -3271,11 +4790,13 @@ class Compiler:
 
 # ------------------------------------------------------------------------------------------ driver
 
-def compile_fn(world, parsed, toks, cname, self_ty, lean_name, tmap=None, tvars=(), assoc=None):
+def compile_fn(world, parsed, toks, cname, self_ty, lean_name, tmap=None, tvars=(), assoc=None, where_into=None):
     """(Lean text of the definition, Fn); tvars = type parameters of the enclosing impl (kept generic)"""
     name, gs, mode, params, ret_toks, body = parsed
-    if mode != "none" and (self_ty is None or self_ty[0] != "struct"):
-        raise Reject("`self` receiver outside an impl of a translated struct")
+    if mode != "none" and (self_ty is None or self_ty[0] not in ("struct", "enum")):
+        raise Reject("`self` receiver outside an impl of a translated struct / enum")
+    if mode in ("mut", "ownmut") and self_ty[0] == "enum":
+        raise Reject("`&mut self` / `mut self` receiver on an enum (only `&self` / `self`)")
     tr = TypeResolver(world, self_ty, tvars, assoc)
     if tmap:
         base_resolve = tr.ty
@@ -3287,10 +4808,17 @@ def compile_fn(world, parsed, toks, cname, self_ty, lean_name, tmap=None, tvars=
                 return tmap[v]
             return base_resolve()
         tr.ty = ty_with_map
-    ptys = []
-    for p, mut, tt in params:
+    ptys, mutparam = [], None
+    for j, (p, mut, tt) in enumerate(params):
         try:
-            ptys.append((p, mut, tr.resolve(tt)))
+            if tt[:2] == ["&", "mut"] and world.ctx is not None and world.ctx.groups[0] in GROUPS3:
+                # `x: &mut T`: state passing on the parameter, as for `&mut self`: the fn returns the new `x` with its result
+                if mutparam is not None or mode in ("mut", "ownmut"):
+                    raise Reject("more than one `&mut` parameter / a `&mut` parameter next to `&mut self`")
+                mutparam = j
+                ptys.append((p, True, tr.resolve(tt[2:])))
+            else:
+                ptys.append((p, mut, tr.resolve(tt)))
         except Reject as ex:
             raise Reject(f"parameter `{p}`: {ex}")
     if len({p for p, _, _ in ptys}) != len(ptys):
@@ -3301,6 +4829,15 @@ def compile_fn(world, parsed, toks, cname, self_ty, lean_name, tmap=None, tvars=
     if sum(1 for j in range(len(vals) - 2) if vals[j:j + 3] == ["Utc", "::", "now"]) > 1:
         raise Reject("`Utc::now()` is read more than once (the wall clock is ONE explicit parameter per function)")
     c = Compiler(world, self_ty, mode, ret, idents, tr)
+    c.mutparam = ptys[mutparam][0] if mutparam is not None else None
+    c.tr_env_ty = ptys[mutparam][2] if mutparam is not None else None
+    for g, wt in (where_into or {}).items():
+        if g in tvars:
+            tgt = tr.resolve(wt)
+            x = f"{g}_into"
+            if x in world.conv_ops and world.conv_ops[x] != (g, tgt):
+                raise Reject(f"two different `{g}: Into<..>` bounds in the translated code (the conversion parameter `{x}` would clash)")
+            c.into_bounds[g] = tgt
     env = {}
     if mode != "none":
         env["self"] = Var(self_ty, mode in ("mut", "ownmut"), "self")
@@ -3322,10 +4859,14 @@ def compile_fn(world, parsed, toks, cname, self_ty, lean_name, tmap=None, tvars=
     sig += [f"({lean_id(p)} : {ty_lean(t)})" for p, _, t in ptys]
     if mode == "mut":
         rt = ty_lean(self_ty) if ret == UNIT else f"{ty_atom(self_ty)} × {ty_lean(ret)}"
+    elif mutparam is not None:
+        rt = ty_lean(ptys[mutparam][2]) if ret == UNIT else f"{ty_atom(ptys[mutparam][2])} × {ty_lean(ret)}"
     else:
         rt = ty_lean(ret)
     out = f"def {lean_name} " + " ".join(sig) + f" : {rt} :=\n{text}"
-    return out, Fn(lean_name, mode, self_ty, [(p, t) for p, _, t in ptys], ret, [g for g in tvars if g in used], c.externs)
+    fn = Fn(lean_name, mode, self_ty, [(p, t) for p, _, t in ptys], ret, [g for g in tvars if g in used], c.externs)
+    fn.mutparam = mutparam
+    return out, fn
 
 
 def translate_trait(world, text, raw, name):
@@ -3380,6 +4921,33 @@ def translate_trait(world, text, raw, name):
     return note + "\n" + out, sha, line
 
 
+def translate_alias(world, text, raw, name):
+    """`type Name<P = D, ..> = T;` at the top level of the file: expanded at every use (TypeResolver), also as the name of
+    a struct pattern / struct literal (World.alias_base); nothing is emitted."""
+    hits = [m for m in re.finditer(r"\btype\s+%s\b" % re.escape(name), text) if depth_at(text, 0, m.start()) == 0]
+    if len(hits) != 1:
+        raise Reject(f"expected exactly one top-level `type {name}`, found {len(hits)}")
+    a = hits[0].start()
+    b = text.index(";", a) + 1
+    sha = hashlib.sha256(raw[a:b].encode()).hexdigest()[:16]
+    line = raw.count("\n", 0, a) + 1
+    p = Parser(tokenize(text[a:b]))
+    p.eat("type")
+    p.ident()
+    params = p.generics()
+    if p.peek() == "where":
+        raise Reject(f"type alias `{name}`: where clause")
+    p.eat("=")
+    body = p.type_tokens({";"})
+    p.eat(";")
+    if name in world.aliases or name in world.lean_names:
+        raise Reject(f"name clash: `{name}` is declared twice")
+    TypeResolver(world, None, params).resolve(body)          # must be a translated type
+    world.aliases[name] = (params, body)
+    shown = name + ("<" + ", ".join(params) + ">" if params else "")
+    return (f"-- alias: `type {shown} = {' '.join(body)}` is expanded at every use", sha, line)
+
+
 def with_attr(world, out):
     """`def ..` -> `@[gen_<group>, ..] def ..`: every generated definition is in the simp set of the group(s) of the table
     item it was generated for, so that agreement proofs can unfold "everything generated for this group" without
@@ -3396,6 +4964,8 @@ def translate(world, text, raw, container, kind, name, opts, loc=None):
     tokens, span of the trait impl | None) of an item that was located by aux_translate"""
     if kind == "trait":
         return translate_trait(world, text, raw, name)
+    if kind == "alias":
+        return translate_alias(world, text, raw, name)
     src_kind = {"opaque": opts.get("item", "struct"), "derive_default": "struct", "derive_new": "struct", "extern": "fn"}.get(kind, kind)
     assoc_span = None
     if loc is not None:
@@ -3482,7 +5052,10 @@ def translate(world, text, raw, container, kind, name, opts, loc=None):
             raise Reject(f"name clash: `{name}` is generated twice")
         world.lean_names.add(name)
         world.opaque.add(name)
-        return (f"-- an identifier type: its values are only stored, cloned and compared; any injective coding would do\nabbrev {name} := Nat", sha, line)
+        if opts.get("generic"):
+            world.opaque_generic.add(name)
+        return (f"-- an identifier type: its values are only stored, cloned and compared; any injective coding would do"
+                + (" (its type arguments are ignored)" if opts.get("generic") else "") + f"\nabbrev {name} := Nat", sha, line)
     if kind == "struct":
         n, gs, tup, raw_fields = p.struct()
         if p.kind() != "eof":
@@ -3490,6 +5063,10 @@ def translate(world, text, raw, container, kind, name, opts, loc=None):
         tr = TypeResolver(world, None, gs)
         fields, dropped = [], {}
         only = opts.get("fields_of_type")
+        keep, drop = opts.get("keep"), opts.get("drop")
+        for f in (keep or []) + (drop or []):
+            if f not in [x for x, _ in raw_fields]:
+                raise Reject(f"struct `{n}` has no field `{f}`")
         for f, tt in raw_fields:
             t = tr.try_resolve(tt)
             if only:
@@ -3497,6 +5074,8 @@ def translate(world, text, raw, container, kind, name, opts, loc=None):
                     fields.append((f, t))
                 else:
                     dropped[f] = " ".join(tt)
+            elif (keep is not None and f not in keep) or (drop is not None and f in drop):
+                dropped[f] = " ".join(tt)
             else:
                 if t is None:
                     tr.resolve(tt)    # raises with the reason
@@ -3512,14 +5091,16 @@ def translate(world, text, raw, container, kind, name, opts, loc=None):
         if not fields:
             out = f"inductive {n} where\n  | mk\n  deriving DecidableEq, Repr"
         if dropped:
-            out = (f"-- restricted to the fields of type `{only}`; not translated (no translated function may read them): "
+            out = ("-- restricted to " + (f"the fields of type `{only}`" if only else "the fields " + ", ".join(f for f, _ in fields))
+                   + "; not translated (no translated function may read them" + ("" if only else "; translated code cannot construct the struct") + "): "
                    + ", ".join(f"{f} : {t}" for f, t in dropped.items()) + "\n") + out
         return out, sha, line
     if kind == "enum":
         n, raw_variants = p.enum()
+        egs = p.enum_generics
         if p.kind() != "eof":
             raise Reject(f"`{p.peek()}` after the enum")
-        tr = TypeResolver(world, None, ())
+        tr = TypeResolver(world, None, egs)
         keep = opts.get("variants")
         variants, dropped = [], []
         if keep:
@@ -3539,8 +5120,17 @@ def translate(world, text, raw, container, kind, name, opts, loc=None):
                 raise Reject(f"enum `{n}`: option `rest` needs dropped variants and no variant named `Other_`")
             variants.append(("Other_", "unit", []))
         world.lean_names.add(n)
-        world.enums[n] = Enum(n, variants, dropped, rest)
-        out = f"inductive {n} where\n" + "".join(
+        world.enums[n] = Enum(n, variants, dropped, rest, egs)
+        derived = []
+        for at in attributes_before(text, a)[1]:
+            m = re.fullmatch(r"#\[\s*derive\s*\((.*)\)\s*\]", at, re.S)
+            if m:
+                derived += [x.strip().split("::")[-1].strip() for x in m.group(1).split(",") if x.strip()]
+        world.enums[n].from_variants = {v for v, shape, fs in variants if shape == "tuple" and len(fs) == 1
+                                        and (v in p.enum_from or "From" in derived)}
+        if world.ctx is not None and world.ctx.groups[0] in GROUPS3:       # (the first two files keep their committed form)
+            VARIANT_NAMES.update(v for v, _, _ in variants)
+        out = f"inductive {n}" + "".join(f" ({g} : Type)" for g in egs) + " where\n" + "".join(
             f"  | {v}" + "".join(f" ({lean_id(f)} : {ty_lean(t)})" for f, t in fs) + "\n" for v, _, fs in variants) + "  deriving DecidableEq, Repr"
         if dropped and rest:
             out = (f"-- restricted to the variant(s) {', '.join(keep)}; the other variants ({', '.join(dropped)}) are represented, without their "
@@ -3558,6 +5148,8 @@ def translate(world, text, raw, container, kind, name, opts, loc=None):
             if depth_at(text, clo, clo + m.start()) == 0:
                 assoc[m.group(1)] = [v for _, v in tokenize(m.group(2))][:-1]
     lname = (cname + "." if cname else "") + lean_id(n)
+    if cname in world.structs and any(f == n for f, _ in world.structs[cname].fields):
+        lname += "_fn"            # a method named like a field of its struct: Lean has the projection under that name
     key = (cname, n)
     if loc is None and lname in world.aux_names and (key in world.fns or key in world.generic_fns):
         # a table item that an earlier table item calls: it was already generated by lookup
@@ -3588,7 +5180,7 @@ def translate(world, text, raw, container, kind, name, opts, loc=None):
         abstract = None
         if not clash:
             try:
-                abstract = compile_fn(world, parsed, toks, cname, self_ty, lname, None, list(igs) + list(gs), assoc)
+                abstract = compile_fn(world, parsed, toks, cname, self_ty, lname, None, list(igs) + list(gs), assoc, p.where_into)
             except Reject:
                 abstract = None
         if abstract is not None:
@@ -3614,7 +5206,7 @@ def translate(world, text, raw, container, kind, name, opts, loc=None):
 
 def main():
     argv = sys.argv[1:]
-    all_groups = GROUPS + GROUPS2
+    all_groups = GROUPS + GROUPS2 + GROUPS3
     required = set(all_groups)
     to_stdout = False
     while argv:
@@ -3633,12 +5225,12 @@ def main():
             sys.exit(__doc__)
     world = World()
     # one (sections, header) pair per generated file; an item goes to the file of its FIRST group
-    sections, header = {1: [], 2: []}, {1: [], 2: []}
+    sections, header = {1: [], 2: [], 3: []}, {1: [], 2: [], 3: []}
     errors, failed_groups = [], set()
     cur = None
     for group, rel, container, kind, name, opts in MACHINES:
         groups = group.split("+")
-        fno = 1 if groups[0] in GROUPS else 2
+        fno = 1 if groups[0] in GROUPS else 2 if groups[0] in GROUPS2 else 3
         shown = f"{rel} :: " + (f"{container} :: " if container else "") + f"{kind} {name}"
         world.pending, world.aux_header = [], []
         world.ctx = Ctx(groups, rel, container)
@@ -3673,7 +5265,7 @@ def main():
         where = (container + " :: " if container else "") + f"{kind} {name}"
         for inst in world.pending:
             sections[fno].append("\n" + inst)
-        if out.startswith("-- generic") or out.startswith("-- extern") or out.startswith("-- already"):
+        if out.startswith("-- generic") or out.startswith("-- extern") or out.startswith("-- already") or out.startswith("-- alias"):
             sections[fno].append(f"\n-- `{where}` ({rel}:{line}) {out[3:]}")
         else:
             lead = ""
@@ -3704,11 +5296,23 @@ def main():
              + "\n".join(header[2]) + "\n-/\nset_option linter.unusedVariables false   -- e.g. `&self` of a method of a unit struct\n"
              "namespace BarterModel.Generated.Machines\n\n" + PRELUDE2 + "\n".join(sections[2])
              + "\n\nend BarterModel.Generated.Machines\n")
+    text3 = ("import BarterModel.Generated.Machines2\n"
+             "/-\nGENERATED FILE -- DO NOT EDIT.  Third output file of tools/rust2lean_sm.py (same namespace as, and importing,\n"
+             "Generated/Machines2.lean): state machines that keep their state in MAP containers (`HashMap` / `FnvHashMap` /\n"
+             "`IndexMap`), read through the explicit map vocabulary of the prelude below.  Rewritten from the Rust source on\n"
+             "every run of `./check` for the properties whose props/Cxx.py names a group of this file in PREBUILD; the\n"
+             "committed copy is the output for the pinned tree.  The agreement with the hand-written models is proved in\n"
+             "Lemmas/KernelsAgree/{" + ",".join(AGREE3) + "}.lean.\n\n"
+             "Source items (file :: item, line, hash of the item's source text):\n"
+             + "\n".join(header[3]) + "\n-/\nset_option linter.unusedVariables false   -- e.g. a binder that only a log macro reads\n"
+             "namespace BarterModel.Generated.Machines\n\n" + PRELUDE3 + "\n".join(sections[3])
+             + "\n\nend BarterModel.Generated.Machines\n")
     if to_stdout:
         sys.stdout.write(text1)
         sys.stdout.write(text2)
+        sys.stdout.write(text3)
     else:
-        for path, text in ((OUT, text1), (OUT2, text2)):
+        for path, text in ((OUT, text1), (OUT2, text2), (OUT3, text3)):
             os.makedirs(os.path.dirname(path), exist_ok=True)
             old = open(path, encoding="utf-8").read() if os.path.exists(path) else None
             if old != text:
@@ -3725,7 +5329,7 @@ def main():
     bad = failed_groups & required
     n_bad = len({m for _, m in errors})
     print(f"rust2lean_sm: {len(MACHINES) - n_bad}/{len(MACHINES)} items translated from {REPO} -> {os.path.relpath(OUT, VERIF)}, "
-          f"{os.path.relpath(OUT2, VERIF)}" + (f"; FAILED in required group(s): {', '.join(sorted(bad))}" if bad else ""))
+          f"{os.path.relpath(OUT2, VERIF)}, {os.path.relpath(OUT3, VERIF)}" + (f"; FAILED in required group(s): {', '.join(sorted(bad))}" if bad else ""))
     return 1 if bad else 0
 
 
